@@ -201,7 +201,7 @@ Proof.
 Qed.
 
 (** the relation across the event of a record (propositional core) *)
-Lemma mid_core : forall (cur cur_mid s s1 : option Z) (now T : Z) (isTE Q Q1 ST ST1 : Prop),
+Lemma mid_core : forall (cur cur_mid s s1 : option Z) (now T : Z) (isTE Q Q1 ST : Prop),
   {isTE} + {~ isTE} ->
   (isTE -> cur_mid = match cur with Some e => if (e =? T)%Z then None else cur | None => None end) ->
   (~ isTE -> cur_mid = cur) ->
@@ -209,10 +209,10 @@ Lemma mid_core : forall (cur cur_mid s s1 : option Z) (now T : Z) (isTE Q Q1 ST 
   s1 = s \/ (s = Some T /\ s1 = None /\ (isTE \/ Q1)) ->
   (Q -> T = now /\ (Q1 \/ isTE)) ->
   (s = Some now -> s1 = s -> T = now) ->
-  (ST -> T = now -> ST1) -> (isTE -> ST1) ->
-  cur_mid = s1 \/ (R2 T cur_mid s1 /\ Q1) \/ (R3 T cur_mid s1 /\ ST1).
+  cur_mid = s1 \/ (R2 T cur_mid s1 /\ Q1) \/
+  (R3 T cur_mid s1 /\ ((ST /\ T = now /\ cur = None) \/ (isTE /\ cur = Some T))).
 Proof.
-  intros cur cur_mid s s1 now T isTE Q Q1 ST ST1 Hdec Hte Hnte HJ Hsh HP1 HP3 Hst Hst2.
+  intros cur cur_mid s s1 now T isTE Q Q1 ST Hdec Hte Hnte HJ Hsh HP1 HP3.
   unfold R2, R3 in *.
   destruct Hdec as [Hi|Hi].
   - rewrite (Hte Hi). clear Hte Hnte.
@@ -235,3 +235,1230 @@ Proof.
     + destruct Hsh as [E|(_ & -> & _)]; [|left; reflexivity].
       pose proof (HP3 eq_refl E) as ->. subst s1. right. right. auto.
 Qed.
+
+(** * 4. The loop invariant *)
+Definition te_at (r : hrec) (X : bool) (m : N) (t : Z) : Prop :=
+  se_ev (h_ev r) = TETimerEnd m /\ se_client (h_ev r) = X /\ se_time (h_ev r) = t.
+(** a TimerEnd of [m] on side [X] at instant [t] among the records before [j] *)
+Definition stale_before (L : list hrec) (j : nat) (X : bool) (m : N) (t : Z) : Prop :=
+  exists i ri, (i < j)%nat /\ nth_error L i = Some ri /\ te_at ri X m t.
+Definition queued_end (sq : simq) (X : bool) (m : N) : Prop :=
+  exists e, In e (qint sq X) /\ se_ev e = TETimerEnd m.
+
+Definition JR (L : list hrec) (now : Z) (st : sim) : Prop :=
+  forall X m,
+    trp' X m L = slotv (s_timers (side_of st X)) m \/
+    (R2 now (trp' X m L) (slotv (s_timers (side_of st X)) m) /\ queued_end (m_sq st) X m) \/
+    (R3 now (trp' X m L) (slotv (s_timers (side_of st X)) m) /\ stale_before L (length L) X m now).
+
+Lemma stale_before_app : forall L L2 j X m t, (j <= length L)%nat ->
+  (stale_before (L ++ L2) j X m t <-> stale_before L j X m t).
+Proof.
+  intros L L2 j X m t Hj. split; intros (i & ri & Hi & Hn & Ht); exists i, ri; (split; [exact Hi|]);
+    (split; [|exact Ht]).
+  - rewrite nth_error_app1 in Hn by lia. exact Hn.
+  - rewrite nth_error_app1 by lia. exact Hn.
+Qed.
+
+Lemma stale_before_mono : forall L j j' X m t, (j <= j')%nat -> stale_before L j X m t -> stale_before L j' X m t.
+Proof. intros L j j' X m t Hj (i & ri & Hi & H). exists i, ri. split; [lia|exact H]. Qed.
+
+Lemma after_event'_te : forall m T cur,
+  after_event' (TETimerEnd m) m T cur = match cur with Some e => if (e =? T)%Z then None else cur | None => None end.
+Proof. intros m T cur. cbn [after_event']. rewrite N.eqb_refl. destruct cur as [e|]; [|reflexivity]. cbn [andb]. reflexivity. Qed.
+
+Lemma after_event'_other : forall ev m T cur, ev <> TETimerEnd m -> after_event' ev m T cur = cur.
+Proof.
+  intros ev m T cur H. destruct ev; try reflexivity. cbn [after_event'].
+  destruct (N.eqb_spec m0 m) as [->|_]; [exfalso; apply H; reflexivity|reflexivity].
+Qed.
+
+(** what the shape of a call means for one slot *)
+Lemma shape_entry : forall st st1 next X m,
+  pick_shape st st1 next ->
+  slotv (s_timers (side_of st1 X)) m = slotv (s_timers (side_of st X)) m \/
+  (slotv (s_timers (side_of st X)) m = Some (se_time next) /\ slotv (s_timers (side_of st1 X)) m = None /\
+   ((se_ev next = TETimerEnd m /\ se_client next = X) \/ queued_end (m_sq st1) X m)).
+Proof.
+  intros st st1 next X m [(A & B)|(ic & mi & Hn & Hu & Ho & Hq)].
+  - left. destruct X; cbn [side_of]; congruence.
+  - destruct (bool_dec X ic) as [->|Hne].
+    + assert (Hlt : (mi < length (s_timers (side_of st ic)))%nat) by (apply nth_error_Some; congruence).
+      rewrite Hu, (slotv_upd _ _ _ _ Hlt).
+      destruct (N.eqb_spec (N.of_nat mi) m) as [<-|Hm]; [|left; reflexivity].
+      right. split; [apply slotv_some; rewrite Nat2N.id; exact Hn|]. split; [reflexivity|].
+      destruct Hq as [Hq|(x & Hx & Hev)]; [left; exact Hq|right; exists x; auto].
+    + apply neq_negb in Hne. subst X. left. rewrite Ho. reflexivity.
+Qed.
+
+(** the replay of one side/machine across the event of the new record *)
+Definition cur_mid (L : list hrec) (next : sev) (X : bool) (m : N) : option Z :=
+  if Bool.eqb (se_client next) X then after_event' (se_ev next) m (se_time next) (trp' X m L)
+  else trp' X m L.
+
+Lemma pick_mid : forall L fuel st now next st1,
+  QOK L now (m_sq st) -> SL L st -> TGE now st -> JR L now st ->
+  pick_next fuel st now = Ok (Some next, st1) ->
+  QOK L (se_time next) (m_sq st1) /\ SL L st1 /\ (now <= se_time next)%Z /\ TGE (se_time next) st1 /\
+  (forall X m,
+     cur_mid L next X m = slotv (s_timers (side_of st1 X)) m \/
+     (R2 (se_time next) (cur_mid L next X m) (slotv (s_timers (side_of st1 X)) m) /\
+      queued_end (m_sq st1) X m) \/
+     (R3 (se_time next) (cur_mid L next X m) (slotv (s_timers (side_of st1 X)) m) /\
+      ((stale_before L (length L) X m (se_time next) /\ se_time next = now /\ trp' X m L = None) \/
+       ((se_ev next = TETimerEnd m /\ se_client next = X) /\ trp' X m L = Some (se_time next))))) /\
+  (forall X m e, trp' X m L = Some e -> (se_time next <= e)%Z).
+Proof.
+  intros L fuel st now next st1 HQ HS Hge HJ H.
+  destruct (pick_next_tinv _ _ _ _ _ _ HQ HS H) as (HQ1 & HS1 & _).
+  pose proof (pick_next_time _ _ _ _ _ H) as Htime.
+  pose proof (pick_next_not_past_wf _ _ _ _ _ (SimTrace.sq_inv_wf _ (proj1 HQ)) H) as Hnp.
+  pose proof (pick_next_slots _ _ _ _ _ H) as (_ & _ & Sc & Ss).
+  pose proof (pick_next_shape _ _ _ _ _ (proj1 HQ) (proj1 (proj2 HQ)) H) as Hshape.
+  assert (Hsub : forall ic mi t, nth_error (s_timers (side_of st1 ic)) mi = Some (Some t) ->
+                                 nth_error (s_timers (side_of st ic)) mi = Some (Some t)).
+  { intros [|] mi t Hn; cbn [side_of] in *; auto. }
+  assert (Hge1 : TGE (se_time next) st1).
+  { intros ic mi t Hn. apply Hnp; [eapply in_pending_timer; exact Hn|]. eapply Hge. apply Hsub. exact Hn. }
+  (* a queued TimerEnd pins the time and stays queued unless it is the event returned *)
+  assert (HP1 : forall X m, queued_end (m_sq st) X m ->
+                  se_time next = now /\
+                  (queued_end (m_sq st1) X m \/ (se_ev next = TETimerEnd m /\ se_client next = X))).
+  { intros X m (e & He & Hev).
+    destruct (proj2 (proj2 HQ) X e He) as [_ Hte]. destruct (Hte m Hev) as [Hnow _].
+    assert (Hle : (se_time e <= now)%Z) by lia.
+    destruct (pick_pinned fuel st now next st1 X e (proj1 HQ) (proj1 (proj2 HQ)) He Hle H) as (Ht & _ & _ & Hk).
+    split; [exact Ht|]. destruct Hk as [Hk|[A B]]; [left; exists e; auto|right; split; congruence]. }
+  (* a timer due now that is still running pins the time *)
+  assert (HP3 : forall X m, slotv (s_timers (side_of st X)) m = Some now ->
+                  slotv (s_timers (side_of st1 X)) m = slotv (s_timers (side_of st X)) m -> se_time next = now).
+  { intros X m Hs E. rewrite Hs in E. apply slotv_some in E.
+    pose proof (Hnp now (in_pending_timer _ _ _ _ E) ltac:(lia)). lia. }
+  split; [exact HQ1|]. split; [exact HS1|]. split; [exact Htime|]. split; [exact Hge1|]. split.
+  - intros X m. unfold cur_mid.
+    assert (Hdec : {se_ev next = TETimerEnd m /\ se_client next = X} + {~ (se_ev next = TETimerEnd m /\ se_client next = X)}).
+    { destruct (te_dec (se_ev next) m) as [A|A]; [|right; tauto].
+      destruct (bool_dec (se_client next) X) as [B|B]; [left; auto|right; tauto]. }
+    assert (Hcore := mid_core (trp' X m L)
+              (if Bool.eqb (se_client next) X then after_event' (se_ev next) m (se_time next) (trp' X m L)
+               else trp' X m L)
+              (slotv (s_timers (side_of st X)) m) (slotv (s_timers (side_of st1 X)) m)
+              now (se_time next) (se_ev next = TETimerEnd m /\ se_client next = X)
+              (queued_end (m_sq st) X m) (queued_end (m_sq st1) X m) (stale_before L (length L) X m now) Hdec).
+    destruct Hcore as [A|[A|[A [(B1 & B2 & B3)|B]]]].
+    + intros [A B]. rewrite B, Bool.eqb_reflx, A. apply after_event'_te.
+    + intros Hn. destruct (Bool.eqb (se_client next) X) eqn:E; [|reflexivity].
+      apply Bool.eqb_prop in E. apply after_event'_other. intros C. apply Hn. auto.
+    + exact (HJ X m).
+    + destruct (shape_entry st st1 next X m Hshape) as [A|(A & B & [C|C])]; auto.
+    + intros Hq. destruct (HP1 X m Hq) as [A [B|B]]; auto.
+    + apply HP3.
+    + left. exact A.
+    + right. left. exact A.
+    + right. right. split; [exact A|]. left. rewrite B2. auto.
+    + right. right. split; [exact A|]. right. exact B.
+  - intros X m e He. destruct (HJ X m) as [E|[[[A B] Hq]|[[A B] _]]].
+    + rewrite He in E. symmetry in E.
+      destruct (shape_entry st st1 next X m Hshape) as [S1|(S1 & _)].
+      * rewrite E in S1. apply slotv_some in S1. apply (Hge1 X _ _ S1).
+      * rewrite E in S1. injection S1 as <-. lia.
+    + rewrite He in A. injection A as ->. destruct (HP1 X m Hq) as [-> _]. lia.
+    + rewrite He in A. discriminate A.
+Qed.
+
+(** * 5. TimerBegin obligations *)
+(** an UpdateTimer (dur, rp) at instant [t] sets or changes a timer whose replay is [cur]; when the replay
+    has no timer running and the duration is zero we ask in addition that no TimerEnd of that machine and
+    side was reported at this same instant before ([stale]): see the comment at [timers_live_gen] *)
+Definition sets_cond' (rp : bool) (cur : option Z) (stale : Prop) (t : Z) (dur : N) : Prop :=
+  rp = true \/ (cur = None /\ (0 < dur \/ ~ stale)) \/ (exists u, cur = Some u /\ (u < t + Z.of_N dur)%Z).
+
+Definition owed' (L : list hrec) (j : nat) (X : bool) (m : N) (t : Z) : Prop :=
+  exists rj dur rp, nth_error L j = Some rj /\ se_client (h_ev rj) = X /\ se_time (h_ev rj) = t /\
+    In (TUpdateTimer m dur rp) (h_acts rj) /\
+    (sets_cond' rp (treplay' X m L j) (stale_before L j X m t) t dur \/
+     sets_cond' rp (after_event' (se_ev (h_ev rj)) m t (treplay' X m L j)) (stale_before L (S j) X m t) t dur).
+
+Definition BEG' (L : list hrec) (now : Z) (sq : simq) : Prop :=
+  forall j X m t, owed' L j X m t ->
+    (exists k, (j < k)%nat /\ begin_at L k X m t) \/
+    (t = now /\ exists e, In e (qint sq X) /\ se_ev e = TETimerBegin m).
+Definition GoodA' (L : list hrec) : Prop :=
+  forall j X m t k' rk', owed' L j X m t -> (j < k')%nat -> nth_error L k' = Some rk' ->
+    (t < se_time (h_ev rk'))%Z -> exists k, (j < k < k')%nat /\ begin_at L k X m t.
+Definition RecB' (L : list hrec) : Prop :=
+  forall i ri, nth_error L i = Some ri ->
+    forall X m e, treplay' X m L i = Some e -> (se_time (h_ev ri) <= e)%Z.
+
+Lemma sets_cond'_iff : forall rp cur s1 s2 t dur, (s1 <-> s2) ->
+  sets_cond' rp cur s1 t dur -> sets_cond' rp cur s2 t dur.
+Proof. intros rp cur s1 s2 t dur E [A|[[A B]|A]]; unfold sets_cond'; [auto| |auto]. right. left. tauto. Qed.
+
+Lemma owed'_app : forall L L2 j X m t, owed' L j X m t -> owed' (L ++ L2) j X m t.
+Proof.
+  intros L L2 j X m t (rj & dur & rp & Hn & Hc & Ht & Hi & Hs).
+  pose proof (nth_lt _ _ _ Hn) as Hlt.
+  exists rj, dur, rp. split; [apply nth_app_l; exact Hn|]. split; [exact Hc|]. split; [exact Ht|].
+  split; [exact Hi|]. rewrite treplay'_app by lia.
+  destruct Hs as [Hs|Hs]; [left|right]; (eapply sets_cond'_iff; [|exact Hs]); symmetry;
+    apply stale_before_app; lia.
+Qed.
+
+Lemma owed'_snoc_inv : forall L r j X m t, owed' (L ++ [r]) j X m t ->
+  owed' L j X m t \/
+  (j = length L /\ se_client (h_ev r) = X /\ se_time (h_ev r) = t /\
+   exists dur rp, In (TUpdateTimer m dur rp) (h_acts r) /\
+     (sets_cond' rp (trp' X m L) (stale_before L (length L) X m t) t dur \/
+      sets_cond' rp (after_event' (se_ev (h_ev r)) m t (trp' X m L))
+                 (stale_before L (length L) X m t \/ te_at r X m t) t dur)).
+Proof.
+  intros L r j X m t (rj & dur & rp & Hn & Hc & Ht & Hi & Hs).
+  apply nth_snoc in Hn. destruct Hn as [Hn|[-> ->]].
+  - left. pose proof (nth_lt _ _ _ Hn) as Hlt. exists rj, dur, rp. rewrite treplay'_app in Hs by lia.
+    split; [exact Hn|]. split; [exact Hc|]. split; [exact Ht|]. split; [exact Hi|].
+    destruct Hs as [Hs|Hs]; [left|right]; (eapply sets_cond'_iff; [|exact Hs]); apply stale_before_app; lia.
+  - right. rewrite treplay'_app, treplay'_full in Hs by lia. split; [reflexivity|].
+    split; [exact Hc|]. split; [exact Ht|]. exists dur, rp. split; [exact Hi|].
+    destruct Hs as [Hs|Hs]; [left|right]; (eapply sets_cond'_iff; [|exact Hs]).
+    + apply stale_before_app. lia.
+    + split.
+      * intros (i & ri & Hi' & Hn' & Hte). apply nth_snoc in Hn'. destruct Hn' as [Hn'|[-> ->]].
+        -- left. exists i, ri. split; [eapply nth_lt; exact Hn'|]. auto.
+        -- right. exact Hte.
+      * intros [(i & ri & Hi' & Hn' & Hte)|Hte].
+        -- exists i, ri. split; [lia|]. split; [apply nth_app_l; exact Hn'|exact Hte].
+        -- exists (length L), r. split; [lia|]. split; [|exact Hte].
+           rewrite nth_error_app2 by lia. rewrite Nat.sub_diag. reflexivity.
+Qed.
+
+Lemma after_event'_cases : forall ev m T cur,
+  after_event' ev m T cur = cur \/ (cur = Some T /\ after_event' ev m T cur = None).
+Proof.
+  intros ev m T cur. destruct ev; try (left; reflexivity). cbn [after_event'].
+  destruct (m0 =? m); cbn [andb]; [|left; reflexivity].
+  destruct cur as [e|]; [|left; reflexivity].
+  destruct (Z.eqb_spec e T) as [->|_]; [right; auto|left; reflexivity].
+Qed.
+
+(** under the relation at the middle of a record, the conditions above make the MODEL set the timer *)
+Lemma model_sets : forall (cur cm s1 : option Z) (T : Z) (dur : N) (rp : bool) (SBp isTE Q1 : Prop),
+  cm = cur \/ (cur = Some T /\ cm = None) ->
+  cm = s1 \/ (R2 T cm s1 /\ Q1) \/ (R3 T cm s1 /\ ((SBp /\ cur = None) \/ (isTE /\ cur = Some T))) ->
+  sets_cond' rp cur SBp T dur \/ sets_cond' rp cm (SBp \/ isTE) T dur ->
+  timer_sets T s1 dur rp = true.
+Proof.
+  intros cur cm s1 T dur rp SBp isTE Q1 Hcm Hmid Hc. unfold timer_sets, R2, R3 in *.
+  destruct rp; [reflexivity|]. cbn [orb].
+  assert (Hgoal : s1 = None \/ (exists u, s1 = Some u /\ (u < T + Z.of_N dur)%Z) ->
+                  match s1 with Some t0 => (t0 <? T + Z.of_N dur)%Z | None => true end = true).
+  { intros [->|(u & -> & Hu)]; [reflexivity|apply Z.ltb_lt; exact Hu]. }
+  apply Hgoal. clear Hgoal.
+  destruct Hc as [[C|[[C1 C2]|(u & C1 & C2)]]|[C|[[C1 C2]|(u & C1 & C2)]]]; try discriminate C.
+  - (* the replay before the record has no timer *)
+    assert (cm = None) by (destruct Hcm as [->|[A _]]; congruence). subst cm.
+    destruct Hmid as [<-|[[[A _] _]|[[_ ->] [[B1 _]|[_ B]]]]]; [auto|discriminate A| |congruence].
+    destruct C2 as [C2|C2]; [|contradiction]. right. exists T. split; [reflexivity|lia].
+  - destruct Hcm as [->|[A ->]].
+    + destruct Hmid as [<-|[[[_ ->] _]|[[A _] _]]]; [right; eauto|auto|congruence].
+    + rewrite C1 in A. injection A as ->.
+      destruct Hmid as [<-|[[[A _] _]|[[_ ->] _]]]; [auto|discriminate A|]. right. exists T. split; [reflexivity|lia].
+  - destruct Hmid as [<-|[[[A _] _]|[[_ ->] [[B1 _]|[B1 _]]]]]; [auto|congruence| |].
+    + destruct C2 as [C2|C2]; [|tauto]. right. exists T. split; [reflexivity|lia].
+    + destruct C2 as [C2|C2]; [|tauto]. right. exists T. split; [reflexivity|lia].
+  - destruct Hmid as [<-|[[[_ ->] _]|[[A _] _]]]; [right; eauto|auto|congruence].
+Qed.
+
+(** ** the network stack keeps every event of the internal heaps *)
+Lemma network_stack_keep2 : forall next sq bb net nowt sq' net' act ic e,
+  SB.wf_simq sq -> In e (qint sq ic) ->
+  sim_network_stack next sq bb net nowt = Ok (sq', net', act) -> In e (qint sq' ic).
+Proof.
+  intros next sq bb net nowt sq' net' act ic e Hwf He H.
+  assert (Hnt : se_ev e <> TETunnelSent).
+  { rewrite qint_evq in He. pose proof Hwf as Hw. rewrite SB.wf_simq_iff in Hw. specialize (Hw ic).
+    rewrite SB.wf_evq_iff in Hw. destruct (Hw QInternal e He) as [_ [A _]]. exact A. }
+  unfold sim_network_stack in H.
+  destruct (se_ev next) eqn:Eev; try (injection H as <- _ _; exact He).
+  - destruct (se_pad next); injection H as <- _ _; apply qint_push_keep; exact He.
+  - injection H as <- _ _. apply qint_push_keep; exact He.
+  - destruct (se_replace next); [|injection H as <- _ _; apply qint_push_keep; exact He].
+    destruct (sq_peek_blocking sq bb (se_client next)) as [[queued|] which] eqn:Epk;
+      [|injection H as <- _ _; apply qint_push_keep; exact He].
+    destruct (Bool.eqb (se_client queued) (se_client next) && is_tunnel_sent (se_ev queued)
+              && negb (se_pad queued)); [|injection H as <- _ _; apply qint_push_keep; exact He].
+    destruct (negb (se_bypass next)); [injection H as <- _ _; exact He|].
+    destruct (sq_pop_blocking sq which bb (se_client next)
+                (if se_client next then n_cagg net else n_sagg net)) as [[entry sq1]|] eqn:Epop;
+      [|discriminate].
+    injection H as <- _ _. apply qint_push_keep.
+    apply sq_peek_blocking_qid in Epk.
+    assert (Hp : exists w d, (w = QBlocking \/ w = QBypassable) /\ sq_pop sq w (se_client next) d = Some (entry, sq1)).
+    { unfold sq_pop_blocking in Epop. destruct bb; eauto. }
+    destruct Hp as (w & d & Hw & Hp).
+    destruct (pop_keep _ _ _ _ _ _ ic e Hp He) as [Hk|Hk]; [exact Hk|]. exfalso. subst entry.
+    pose proof (SB.sq_pop_ok _ _ _ _ _ _ Hwf Hp) as [_ Hk].
+    destruct Hw as [-> | ->]; destruct Hk as [Hk _]; congruence.
+  - destruct (net_sample net nowt (se_client next)) as [[net1 nd] baseline].
+    destruct (negb (se_pad next)); injection H as <- _ _; apply qint_push_keep; exact He.
+Qed.
+
+(** * 6. One iteration *)
+Record GI (L : list hrec) (now : Z) (st : sim) : Prop := mkGI {
+  gi_q : QOK L now (m_sq st); gi_sl : SL L st; gi_ge : TGE now st; gi_j : JR L now st;
+  gi_b : BEG' L now (m_sq st) }.
+
+Lemma step_hist' : forall L fuel st now next st1 acts,
+  GI L now st -> pick_next fuel st now = Ok (Some next, st1) ->
+  (GoodA' L -> GoodA' (L ++ [mkhrec next acts])) /\ (RecB' L -> RecB' (L ++ [mkhrec next acts])).
+Proof.
+  intros L fuel st now next st1 acts [HQ HS Hge HJ HB] Hp.
+  destruct (pick_mid _ _ _ _ _ _ HQ HS Hge HJ Hp) as (_ & _ & _ & _ & _ & RB).
+  set (r := mkhrec next acts). split.
+  - intros HG j X m t k' rk' Ho Hlt Hn Ht.
+    apply owed'_snoc_inv in Ho. apply nth_snoc in Hn.
+    destruct Ho as [Ho|(Hj & _)]; [|exfalso; destruct Hn as [Hn|[Hk _]]; [apply nth_lt in Hn|]; lia].
+    destruct Hn as [Hn|[-> ->]].
+    + destruct (HG _ _ _ _ _ _ Ho Hlt Hn Ht) as (k & Hk & Hb). exists k. split; [exact Hk|apply begin_at_app; exact Hb].
+    + cbn [r h_ev] in Ht.
+      destruct (HB _ _ _ _ Ho) as [(k & Hk & Hb)|(Hnow & e & He & Hev)].
+      * exists k. split; [pose proof (begin_at_lt _ _ _ _ _ Hb); lia|apply begin_at_app; exact Hb].
+      * exfalso.
+        destruct (proj2 (proj2 HQ) X e He) as [Hb _]. destruct (Hb m Hev) as [Hte _].
+        assert (Hle : (se_time e <= now)%Z) by lia.
+        destruct (pick_pinned _ _ _ _ _ X e (proj1 HQ) (proj1 (proj2 HQ)) He Hle Hp) as [Hpin _]. lia.
+  - intros HR i ri Hn. apply nth_snoc in Hn. destruct Hn as [Hn|[-> ->]].
+    + pose proof (nth_lt _ _ _ Hn) as Hi. intros X m e He. rewrite treplay'_app in He by lia.
+      eapply HR; eauto.
+    + cbn [r h_ev]. intros X m e He. rewrite treplay'_app, treplay'_full in He by lia. eapply RB; eauto.
+Qed.
+
+Lemma after_event'_none : forall ev m T, after_event' ev m T None = None.
+Proof. intros ev m T. destruct ev; try reflexivity. cbn [after_event']. rewrite andb_false_r. reflexivity. Qed.
+
+Lemma step_GI : forall L cc sc tp fuel st now next st1 bb sq2 net2 act sd' sq3 pos3 st3,
+  GI L now st -> pick_next fuel st now = Ok (Some next, st1) ->
+  sim_network_stack next (m_sq st1) bb (m_net st1) (se_time next) = Ok (sq2, net2, act) ->
+  trigger_update (if se_client next then cc else sc) tp (side_of st1 (se_client next)) (m_pos st1)
+                 next (se_time next) sq2 (se_client next) = Ok (sd', sq3, pos3) ->
+  m_sq st3 = sq3 -> side_of st3 (se_client next) = sd' ->
+  side_of st3 (negb (se_client next)) = side_of st1 (negb (se_client next)) ->
+  GI (L ++ [mkhrec next (acts_for cc sc tp st1 next)]) (se_time next) st3.
+Proof.
+  intros L cc sc tp fuel st now next st1 bb sq2 net2 act sd' sq3 pos3 st3 HGI Hp En Htu E3q E3x E3o.
+  destruct HGI as [HQ HS Hge HJ HB].
+  destruct (pick_mid _ _ _ _ _ _ HQ HS Hge HJ Hp) as (HQ1 & HS1 & Htime & Hge1 & Mid & _).
+  pose proof (QOK_network_stack _ _ _ _ _ _ _ _ _ _ HQ1 En) as HQ2.
+  pose proof (step_inv L cc sc tp st1 next sq2 sd' sq3 pos3 HQ2 HS1 Htu) as Hsi. cbv zeta in Hsi.
+  destruct Hsi as (HQ3 & HSx & HSo).
+  destruct (trigger_update_acts _ _ _ _ _ _ _ _ _ _ _ Htu) as (fw' & acts & Et & Ea).
+  assert (Hacts : acts_for cc sc tp st1 next = acts).
+  { unfold acts_for. unfold side_of in Et. destruct (se_client next); rewrite Et; reflexivity. }
+  rewrite Hacts in *.
+  pose proof (apply_actions_slotv _ _ _ _ _ _ _ Ea) as Hslot. cbn [side_set_fw s_timers] in Hslot.
+  destruct (apply_actions_spec _ _ _ _ _ _ _ Ea) as (_ & Hlen & _ & Htm & Esq3 & _).
+  cbn [side_set_fw s_timers] in Hlen, Htm, Esq3.
+  (* events of the internal heaps of st1 are still queued at the end *)
+  assert (Hkeep : forall ic e, In e (qint (m_sq st1) ic) -> In e (qint (m_sq st3) ic)).
+  { intros ic e He. rewrite E3q, Esq3. apply fold_push_keep.
+    eapply network_stack_keep2; [exact (proj1 (proj1 HQ1))|exact He|exact En]. }
+  set (r := mkhrec next acts).
+  assert (Hlast : nth_error (L ++ [r]) (length L) = Some r).
+  { rewrite nth_error_app2 by lia. rewrite Nat.sub_diag. reflexivity. }
+  constructor.
+  - rewrite E3q. exact HQ3.
+  - intros ic mi exp Hn. destruct (bool_dec ic (se_client next)) as [->|Hne].
+    + rewrite E3x in Hn. apply HSx. exact Hn.
+    + apply neq_negb in Hne. subst ic. rewrite E3o in Hn. apply HSo. exact Hn.
+  - intros ic mi t Hn. destruct (bool_dec ic (se_client next)) as [->|Hne].
+    + rewrite E3x in Hn.
+      destruct (nth_error (s_timers (side_of st1 (se_client next))) mi) as [cur|] eqn:Ec.
+      * rewrite (Htm _ _ Ec) in Hn. injection Hn as Hn. apply timer_after_cases in Hn.
+        destruct Hn as [(dur & rp & _ & ->)|[-> _]]; [lia|]. eapply Hge1; exact Ec.
+      * exfalso. apply nth_error_None in Ec. apply nth_lt' in Hn. lia.
+    + apply neq_negb in Hne. subst ic. rewrite E3o in Hn. eapply Hge1; exact Hn.
+  - (* the relation between the replay and the slots *)
+    intros X m. rewrite trp'_snoc. unfold trec_step'. cbn [r h_ev h_acts]. rewrite app_length. cbn [length].
+    specialize (Mid X m). unfold cur_mid in Mid.
+    assert (Hst : (stale_before L (length L) X m (se_time next) /\ se_time next = now /\ trp' X m L = None) \/
+                  ((se_ev next = TETimerEnd m /\ se_client next = X) /\ trp' X m L = Some (se_time next)) ->
+                  stale_before (L ++ [r]) (length L + 1) X m (se_time next)).
+    { intros [(A & _)|((A & B) & _)].
+      - apply (stale_before_mono _ (length L)); [lia|]. apply stale_before_app; [lia|exact A].
+      - exists (length L), r. split; [lia|]. split; [exact Hlast|]. split; [exact A|]. split; [exact B|reflexivity]. }
+    assert (Hq : queued_end (m_sq st1) X m -> queued_end (m_sq st3) X m).
+    { intros (e & He & Hev). exists e. split; [apply Hkeep; exact He|exact Hev]. }
+    destruct (bool_dec X (se_client next)) as [->|Hne].
+    + rewrite Bool.eqb_reflx in *. rewrite E3x, Hslot.
+      set (cm := after_event' (se_ev next) m (se_time next) (trp' (se_client next) m L)) in *.
+      set (s1 := slotv (s_timers (side_of st1 (se_client next))) m) in *.
+      assert (Hin : cm = s1 \/ R2 (se_time next) cm s1 \/ R3 (se_time next) cm s1) by (destruct Mid as [A|[[A _]|[A _]]]; auto).
+      destruct (timer_after_rel acts (se_time next) (N.to_nat m) cm s1 Hin) as [E|[[A B]|[A B]]].
+      * left. exact E.
+      * right. left. split; [exact A|]. apply Hq.
+        destruct B as [B1 B2].
+        destruct Mid as [C|[[_ C]|[[C1 C2] _]]]; [exfalso; congruence|exact C|exfalso; congruence].
+      * right. right. split; [exact A|]. apply Hst.
+        destruct B as [B1 B2].
+        destruct Mid as [C|[[[C1 C2] _]|[_ C]]]; [exfalso; congruence|exfalso; congruence|exact C].
+    + apply neq_negb in Hne. subst X.
+      replace (Bool.eqb (se_client next) (negb (se_client next))) with false in *
+        by (destruct (se_client next); reflexivity).
+      rewrite E3o.
+      destruct Mid as [A|[[A B]|[A B]]]; [left; exact A|right; left; split; [exact A|apply Hq; exact B]|].
+      right. right. split; [exact A|apply Hst; exact B].
+  - (* TimerBegin obligations *)
+    intros j X m t Ho. apply owed'_snoc_inv in Ho.
+    destruct Ho as [Ho|(Hj & Hc & Ht & dur & rp & Hin & Hs)].
+    + destruct (HB _ _ _ _ Ho) as [(k & Hk & Hb)|(Hnow & e & He & Hev)].
+      * left. exists k. split; [exact Hk|apply begin_at_app; exact Hb].
+      * destruct (proj2 (proj2 HQ) X e He) as [Hb _]. destruct (Hb m Hev) as [Hte _].
+        assert (Hle : (se_time e <= now)%Z) by lia.
+        destruct (pick_pinned _ _ _ _ _ X e (proj1 HQ) (proj1 (proj2 HQ)) He Hle Hp) as (Hpin & _ & _ & [Hk|[Hev' Hcl']]).
+        -- right. split; [lia|]. exists e. split; [apply Hkeep; exact Hk|exact Hev].
+        -- left. exists (length L). destruct Ho as (rj & _ & _ & Hnj & _). split; [eapply nth_lt; exact Hnj|].
+           exists r. split; [exact Hlast|]. cbn [r h_ev]. split; [congruence|]. split; [exact Hcl'|lia].
+    + right. cbn [r h_ev h_acts] in Hc, Ht, Hin, Hs. subst X. split; [symmetry; exact Ht|].
+      exists (mksev (TETimerBegin m) (se_time next) (se_client next) false false false).
+      split; [|reflexivity].
+      specialize (Mid (se_client next) m). unfold cur_mid in Mid. rewrite Bool.eqb_reflx in Mid.
+      rewrite <- Ht in Hs.
+      assert (Hts : timer_sets (se_time next) (slotv (s_timers (side_of st1 (se_client next))) m) dur rp = true).
+      { eapply (model_sets (trp' (se_client next) m L) _ _ (se_time next) dur rp
+                  (stale_before L (length L) (se_client next) m (se_time next))
+                  (te_at r (se_client next) m (se_time next))).
+        - apply after_event'_cases.
+        - destruct Mid as [A|[A|[A [(B1 & _ & B3)|((B1 & B2) & B3)]]]]; [left; exact A|right; left; exact A| |].
+          + right. right. split; [exact A|]. left. auto.
+          + right. right. split; [exact A|]. right. split; [|exact B3]. split; [exact B1|]. split; [exact B2|reflexivity].
+        - exact Hs. }
+      pose proof (timer_begins_has acts (se_time next) (se_client next) _ m dur rp Hin Hts) as Hb.
+      rewrite E3q, Esq3. exact (fold_push_in _ sq2 _ Hb eq_refl).
+Qed.
+
+(** * 7. The loop and the initial state *)
+Lemma loop_gen : forall cc sc tp args fuel st now hist iters H,
+  GI (rev hist) now st -> GoodA' (rev hist) -> RecB' (rev hist) ->
+  sim_loop_h fuel cc sc tp args st now hist iters = Ok H -> GoodA' H /\ RecB' H.
+Proof.
+  intros cc sc tp args. induction fuel as [|fuel IH]; intros st now hist iters H HGI HG HR Hrun;
+    [discriminate Hrun|].
+  cbn [sim_loop_h] in Hrun.
+  destruct (pick_next (pn_fuel st) st now) as [[nx st1]|k|] eqn:Ep; cbn [bind] in Hrun; try discriminate.
+  destruct nx as [next|]; [|injection Hrun as <-; split; assumption].
+  destruct (se_time next <? now)%Z; [discriminate|].
+  destruct (sim_network_stack next (m_sq st1) _ (m_net st1) (se_time next)) as [[[sq2 net2] act]|k|] eqn:En;
+    cbn [bind] in Hrun; try discriminate.
+  set (r := mkhrec next (acts_for cc sc tp st1 next)) in *.
+  assert (Hstep : exists sd' sq3 pos3 st3,
+            trigger_update (if se_client next then cc else sc) tp (side_of st1 (se_client next)) (m_pos st1)
+                           next (se_time next) sq2 (se_client next) = Ok (sd', sq3, pos3) /\
+            m_sq st3 = sq3 /\ side_of st3 (se_client next) = sd' /\
+            side_of st3 (negb (se_client next)) = side_of st1 (negb (se_client next)) /\
+            (let hist' := r :: hist in
+             (if (0 <? a_max_trace args) && (a_max_trace args <=? N.of_nat (length hist')) then Ok (rev hist')
+              else
+                let iters' := iters + 1 in
+                if (0 <? a_max_iter args) && (a_max_iter args <=? iters') then Ok (rev hist')
+                else if negb (a_continue args) && sq_no_normal sq3 then Ok (rev hist')
+                else sim_loop_h fuel cc sc tp args st3 (se_time next) hist' iters') = Ok H)).
+  { destruct (se_client next) eqn:Ec.
+    - destruct (trigger_update cc tp (m_c st1) (m_pos st1) next (se_time next) sq2 true)
+        as [[[c' sq'] p']|k|] eqn:Et; cbn [bind] in Hrun; try discriminate.
+      exists c', sq', p', (mksim sq' c' (m_s st1) net2 p'). cbn [side_of negb m_sq m_c m_s].
+      split; [exact Et|]. split; [reflexivity|]. split; [reflexivity|]. split; [reflexivity|exact Hrun].
+    - destruct (trigger_update sc tp (m_s st1) (m_pos st1) next (se_time next) sq2 false)
+        as [[[s' sq'] p']|k|] eqn:Et; cbn [bind] in Hrun; try discriminate.
+      exists s', sq', p', (mksim sq' (m_c st1) s' net2 p'). cbn [side_of negb m_sq m_c m_s].
+      split; [exact Et|]. split; [reflexivity|]. split; [reflexivity|]. split; [reflexivity|exact Hrun]. }
+  clear Hrun. destruct Hstep as (sd' & sq3 & pos3 & st3 & Htu & E3q & E3x & E3o & Hrun). cbv zeta in Hrun.
+  destruct (step_hist' (rev hist) _ _ _ _ _ (acts_for cc sc tp st1 next) HGI Ep) as [SG SR].
+  specialize (SG HG). specialize (SR HR).
+  change (rev hist ++ [mkhrec next (acts_for cc sc tp st1 next)]) with (rev (r :: hist)) in SG, SR.
+  destruct (_ && _) in Hrun; [injection Hrun as <-; split; assumption|].
+  destruct (_ && _) in Hrun; [injection Hrun as <-; split; assumption|].
+  destruct (_ && _) in Hrun; [injection Hrun as <-; split; assumption|].
+  eapply IH; [|exact SG|exact SR|exact Hrun].
+  cbn [rev]. eapply step_GI; [exact HGI|exact Ep|exact En|exact Htu|exact E3q|exact E3x|exact E3o].
+Qed.
+
+Lemma init_GI : forall cc sc tp sq delay pps st0 t0,
+  sim_init cc sc tp sq delay pps st0 t0 -> SB.sq_inv sq -> start_ok sq -> GI [] t0 st0.
+Proof.
+  intros cc sc tp sq delay pps st0 t0 Hi Hinv Hs.
+  destruct (init_inv _ _ _ _ _ _ _ _ Hi Hinv Hs) as [HQ HS].
+  destruct Hi as (cfw & sfw & net & _ & _ & _ & _ & ->).
+  assert (Hnone : forall (l : list machine) mi (x : Z), nth_error (map (fun _ => @None Z) l) mi <> Some (Some x)).
+  { intros l mi x C. apply nth_error_In in C. apply in_map_iff in C. destruct C as (y & Hy & _). discriminate Hy. }
+  constructor; cbn [m_sq].
+  - exact HQ.
+  - exact HS.
+  - intros ic mi t C. exfalso. destruct ic; cbn [side_of m_c m_s new_side s_timers] in C; exact (Hnone _ _ _ C).
+  - intros X m. left. cbn [trp' fold_left]. unfold slotv.
+    destruct (nth_error (s_timers (side_of _ X)) (N.to_nat m)) as [[x|]|] eqn:E; try reflexivity.
+    exfalso. destruct X; cbn [side_of m_c m_s new_side s_timers] in E; exact (Hnone _ _ _ E).
+  - intros j X m t (rj & _ & _ & Hn & _). destruct j; discriminate Hn.
+Qed.
+
+Theorem run_gen : forall fuel cc sc tp args st0 t0 H sq delay pps,
+  sim_init cc sc tp sq delay pps st0 t0 -> SB.sq_inv sq -> start_ok sq ->
+  sim_loop_h fuel cc sc tp args st0 t0 [] 0 = Ok H -> GoodA' H /\ RecB' H.
+Proof.
+  intros fuel cc sc tp args st0 t0 H sq delay pps Hi Hinv Hs Hrun.
+  eapply loop_gen; [| | |exact Hrun]; cbn [rev].
+  - eapply init_GI; eauto.
+  - intros j X m t k' rk' _ _ Hn. destruct k'; discriminate Hn.
+  - intros i ri Hn. destruct i; discriminate Hn.
+Qed.
+
+(** * 8. (b) from the per-record statement *)
+Lemma trec_step'_keep : forall X m e r,
+  (se_client (h_ev r) = X ->
+   ~ te_at r X m e /\ forall a, In a (h_acts r) -> is_timer_for m a = false) ->
+  trec_step' X m (Some e) r = Some e.
+Proof.
+  intros X m e r H. unfold trec_step'. destruct (Bool.eqb (se_client (h_ev r)) X) eqn:E; [|reflexivity].
+  apply Bool.eqb_prop in E. destruct (H E) as [Hne Hun]. rewrite timer_after_untouched by exact Hun.
+  destruct (se_ev (h_ev r)) eqn:Eev; try reflexivity. cbn [after_event'].
+  destruct (N.eqb_spec m0 m) as [->|_]; [|reflexivity]. cbn [andb].
+  destruct (Z.eqb_spec e (se_time (h_ev r))) as [Et|_]; [|reflexivity].
+  exfalso. apply Hne. split; [exact Eev|]. split; [exact E|congruence].
+Qed.
+
+Lemma live_end' : forall H, RecB' H ->
+  forall j m e k' rk' X,
+    (j <= length H)%nat -> treplay' X m H j = Some e ->
+    (j <= k')%nat -> nth_error H k' = Some rk' -> (e < se_time (h_ev rk'))%Z ->
+    (exists k rk, (j <= k < k')%nat /\ nth_error H k = Some rk /\ se_ev (h_ev rk) = TETimerEnd m /\
+                  se_client (h_ev rk) = X /\ se_time (h_ev rk) = e) \/
+    (exists j' rj' a', (j <= j' < k')%nat /\ nth_error H j' = Some rj' /\ se_client (h_ev rj') = X /\
+                  In a' (h_acts rj') /\ is_timer_for m a' = true /\ (se_time (h_ev rj') <= e)%Z).
+Proof.
+  intros H HR j m e k' rk' X _ Hj Hjk Hk' Hlt.
+  assert (Hind : forall d i, i = (j + d)%nat -> (i <= k')%nat ->
+            (exists k rk, (j <= k < i)%nat /\ nth_error H k = Some rk /\ se_ev (h_ev rk) = TETimerEnd m /\
+                          se_client (h_ev rk) = X /\ se_time (h_ev rk) = e) \/
+            (exists j' rj' a', (j <= j' < i)%nat /\ nth_error H j' = Some rj' /\ se_client (h_ev rj') = X /\
+                          In a' (h_acts rj') /\ is_timer_for m a' = true /\ (se_time (h_ev rj') <= e)%Z) \/
+            treplay' X m H i = Some e).
+  { induction d as [|d IH]; intros i Hi Hik.
+    - right. right. replace i with j by lia. exact Hj.
+    - destruct (IH (j + d)%nat eq_refl ltac:(lia)) as [(k & rk & Hk & Hrest)|[(j' & rj' & a' & Hj' & Hrest)|Hcur]].
+      + left. exists k, rk. split; [lia|exact Hrest].
+      + right. left. exists j', rj', a'. split; [lia|exact Hrest].
+      + subst i. replace (j + S d)%nat with (S (j + d)) by lia.
+        assert (Hlen : (j + d < length H)%nat) by (apply nth_lt in Hk'; lia).
+        destruct (nth_error H (j + d)) as [ri|] eqn:Eri; [|apply nth_error_None in Eri; lia].
+        rewrite (treplay'_S _ _ _ _ _ Eri), Hcur.
+        pose proof (HR _ _ Eri) as RB.
+        destruct (bool_dec (se_client (h_ev ri)) X) as [Ec|Ec].
+        * destruct (te_dec (se_ev (h_ev ri)) m) as [Ete|Ete].
+          -- destruct (Z.eq_dec (se_time (h_ev ri)) e) as [Et|Et].
+             ++ left. exists (j + d)%nat, ri. split; [lia|]. auto.
+             ++ destruct (existsb (is_timer_for m) (h_acts ri)) eqn:Eex.
+                ** apply existsb_exists in Eex. destruct Eex as (a' & Ha' & Hf).
+                   right. left. exists (j + d)%nat, ri, a'. split; [lia|]. split; [exact Eri|].
+                   split; [exact Ec|]. split; [exact Ha'|]. split; [exact Hf|]. eapply RB; exact Hcur.
+                ** right. right. apply trec_step'_keep. intros _. split; [|apply existsb_false; exact Eex].
+                   intros (_ & _ & C). contradiction.
+          -- destruct (existsb (is_timer_for m) (h_acts ri)) eqn:Eex.
+             ++ apply existsb_exists in Eex. destruct Eex as (a' & Ha' & Hf).
+                right. left. exists (j + d)%nat, ri, a'. split; [lia|]. split; [exact Eri|].
+                split; [exact Ec|]. split; [exact Ha'|]. split; [exact Hf|]. eapply RB; exact Hcur.
+             ++ right. right. apply trec_step'_keep. intros _. split; [|apply existsb_false; exact Eex].
+                intros (C & _). contradiction.
+        * right. right. apply trec_step'_keep. intros C. contradiction. }
+  destruct (Hind (k' - j)%nat k' ltac:(lia) ltac:(lia)) as [Hw|[Hw|Hcur]]; [left; exact Hw|right; exact Hw|].
+  exfalso. specialize (HR _ _ Hk' _ _ _ Hcur). lia.
+Qed.
+
+(** * 9. Counting the queued TimerEnd events *)
+Definition is_tem (m : N) (e : sev) : bool := match se_ev e with TETimerEnd m' => m' =? m | _ => false end.
+Fixpoint tec (m : N) (l : list sev) : nat :=
+  match l with [] => 0 | e :: t => (if is_tem m e then 1 else 0) + tec m t end%nat.
+Definition qcnt (sq : simq) (X : bool) (m : N) : nat := tec m (qint sq X).
+
+Lemma is_tem_true : forall m e, is_tem m e = true <-> se_ev e = TETimerEnd m.
+Proof.
+  intros m e. unfold is_tem. destruct (se_ev e); split; intros H; try discriminate H.
+  - apply N.eqb_eq in H. subst. reflexivity.
+  - injection H as ->. apply N.eqb_refl.
+Qed.
+
+Lemma tec_perm : forall m l l', Permutation l l' -> tec m l = tec m l'.
+Proof. intros m l l' P. induction P; cbn [tec]; lia. Qed.
+
+Lemma tec_pos : forall m l, (0 < tec m l)%nat <-> exists e, In e l /\ se_ev e = TETimerEnd m.
+Proof.
+  intros m. induction l as [|a l IH]; cbn [tec].
+  - split; [lia|intros (e & [] & _)].
+  - destruct (is_tem m a) eqn:Ea.
+    + split; [intros _|lia]. exists a. split; [left; reflexivity|apply is_tem_true; exact Ea].
+    + rewrite Nat.add_0_l, IH. split; intros (e & He & Hev).
+      * exists e. split; [right; exact He|exact Hev].
+      * destruct He as [->|He]; [|eauto]. apply is_tem_true in Hev. congruence.
+Qed.
+
+Lemma qcnt_pos : forall sq X m, (0 < qcnt sq X m)%nat <-> queued_end sq X m.
+Proof. intros. apply tec_pos. Qed.
+
+Definition ind (b : bool) : nat := if b then 1%nat else 0%nat.
+(** [x] is the TimerEnd of [m] on side [X] *)
+Definition tex (x : sev) (X : bool) (m : N) : bool := is_tem m x && Bool.eqb (se_client x) X.
+
+Lemma qcnt_push : forall sq x X m, SB.route x = QInternal ->
+  qcnt (sq_push sq x) X m = (ind (tex x X m) + qcnt sq X m)%nat.
+Proof.
+  intros sq x X m Hr. unfold qcnt, tex. rewrite !qint_evq. unfold sq_push. rewrite SB.sq_side_set.
+  destruct (Bool.eqb (se_client x) X) eqn:E.
+  - apply Bool.eqb_prop in E. subst X. rewrite SB.evq_push_heap, Hr. cbn [qid_eqb].
+    rewrite (tec_perm m _ _ (heap_push_perm sev sev_le _ x)). cbn [tec]. rewrite andb_true_r.
+    destruct (is_tem m x); reflexivity.
+  - rewrite andb_false_r. reflexivity.
+Qed.
+
+Lemma qcnt_push_other : forall sq x X m, (forall m0, se_ev x <> TETimerEnd m0) ->
+  qcnt (sq_push sq x) X m = qcnt sq X m.
+Proof.
+  intros sq x X m Hx. unfold qcnt. rewrite !qint_evq. unfold sq_push. rewrite SB.sq_side_set.
+  destruct (Bool.eqb (se_client x) X) eqn:E; [|reflexivity].
+  apply Bool.eqb_prop in E. subst X. rewrite SB.evq_push_heap.
+  destruct (qid_eqb QInternal (SB.route x)); [|reflexivity].
+  rewrite (tec_perm m _ _ (heap_push_perm sev sev_le _ x)). cbn [tec].
+  assert (E : is_tem m x = false).
+  { destruct (is_tem m x) eqn:E; [|reflexivity]. apply is_tem_true in E. exfalso. exact (Hx m E). }
+  rewrite E. reflexivity.
+Qed.
+
+Lemma qcnt_pop : forall sq w qic d tmp sq' X m,
+  SB.wf_simq sq -> sq_pop sq w qic d = Some (tmp, sq') ->
+  (qcnt sq' X m + ind (tex tmp X m))%nat = qcnt sq X m.
+Proof.
+  intros sq w qic d tmp sq' X m Hwf H.
+  pose proof (SB.sq_pop_ok _ _ _ _ _ _ Hwf H) as [Hcl Hk].
+  destruct (sq_pop_evq _ _ _ _ _ _ H) as (q' & Hp & ->).
+  destruct (SB.evq_pop_spec _ _ _ _ _ Hp) as (x0 & h & Hpop & _ & Hx & Hq & Hoth).
+  unfold qcnt, tex. rewrite !qint_evq, SB.sq_side_set, Hcl.
+  destruct (Bool.eqb qic X) eqn:E.
+  - apply Bool.eqb_prop in E. subst X. rewrite andb_true_r.
+    destruct (SB.qid_eq_dec QInternal w) as [<-|Hne].
+    + rewrite Hq. rewrite (tec_perm m _ _ (heap_pop_perm _ _ _ _ _ Hpop)). cbn [tec].
+      rewrite (Hx ltac:(discriminate)). destruct (is_tem m x0); cbn [ind]; lia.
+    + rewrite (Hoth _ Hne).
+      assert (Ef : is_tem m tmp = false).
+      { destruct (is_tem m tmp) eqn:Ef; [|reflexivity]. apply is_tem_true in Ef. exfalso.
+        destruct w; cbn beta iota in Hk.
+        - destruct Hk as [Hk _]. congruence.
+        - destruct Hk as [Hk _]. congruence.
+        - apply Hne. reflexivity.
+        - congruence. }
+      rewrite Ef. cbn [ind]. lia.
+  - rewrite andb_false_r. cbn [ind]. lia.
+Qed.
+
+Lemma tex_retime : forall tmp t X m,
+  tex (if (se_time tmp <? t)%Z then set_time tmp t else tmp) X m = tex tmp X m.
+Proof. intros tmp t X m. destruct (se_time tmp <? t)%Z; reflexivity. Qed.
+
+Lemma pick_count_due : forall fuel st now next st' ic e,
+  SB.sq_inv (m_sq st) -> ih (m_sq st) -> In e (qint (m_sq st) ic) -> (se_time e <= now)%Z ->
+  pick_next fuel st now = Ok (Some next, st') ->
+  forall X m, (qcnt (m_sq st') X m + ind (tex next X m))%nat = qcnt (m_sq st) X m.
+Proof.
+  induction fuel as [|fuel IH]; intros st now next st' ic e Hinv Hih He Ht H; [discriminate H|].
+  apply pn_cases in H. destruct H as (b & bic & q & which & qic & Hq & H). cbv zeta in Hq.
+  assert (Hz : q = 0).
+  { pose proof (peek_queue_zero (m_sq st) (m_c st) (m_s st) (n_cagg (m_net st)) (n_sagg (m_net st))
+                  (N.min (N.min (N.min (peek_sched (s_sched (m_c st)) (s_sched (m_s st)) now)
+                                       (peek_timers (s_timers (m_c st)) (s_timers (m_s st)) now)) b)
+                         (net_peek_agg (m_net st) now)) now ic e Hih He Ht) as Z0.
+    rewrite Hq in Z0. exact Z0. }
+  subst q. unfold pn_alt in H.
+  destruct H as [(Hr & _)|[H|[H|[H|[H|H]]]]].
+  - discriminate Hr.
+  - exact (IH (mksim (m_sq st) (m_c st) (m_s st) (net_pop_agg (m_net st)) (m_pos st)) now next st' ic e
+              Hinv Hih He Ht H).
+  - destruct H as (_ & Hr & c' & s' & net' & -> & _). injection Hr as ->. intros X m. cbn [m_sq].
+    unfold tex, is_tem. cbn [se_ev andb ind]. lia.
+  - destruct H as (tmp & sq' & Hp & Hr & ->). injection Hr as ->. intros X m. cbn [m_sq].
+    rewrite tex_retime. exact (qcnt_pop _ _ _ _ _ _ X m (proj1 Hinv) Hp).
+  - destruct H as (Hn & _). exfalso. apply Hn. split; apply N.le_0_l.
+  - destruct H as (Hn & _). exfalso. apply Hn. split; apply N.le_0_l.
+Qed.
+
+Definition fired_cnt (st st' : sim) (now : Z) (next : sev) : Prop :=
+  (s_timers (m_c st') = s_timers (m_c st) /\ s_timers (m_s st') = s_timers (m_s st) /\
+   forall X m, (qcnt (m_sq st') X m + ind (tex next X m))%nat = qcnt (m_sq st) X m) \/
+  (exists ic mi,
+     nth_error (s_timers (side_of st ic)) mi = Some (Some (se_time next)) /\
+     s_timers (side_of st' ic) = upd (s_timers (side_of st ic)) mi None /\
+     s_timers (side_of st' (negb ic)) = s_timers (side_of st (negb ic)) /\
+     (forall ic' e, In e (qint (m_sq st) ic') -> (now < se_time e)%Z) /\
+     forall X m, (qcnt (m_sq st') X m + ind (tex next X m))%nat
+                 = (ind (Bool.eqb ic X && N.eqb (N.of_nat mi) m) + qcnt (m_sq st) X m)%nat).
+
+Lemma pick_count : forall fuel st now next st',
+  SB.sq_inv (m_sq st) -> ih (m_sq st) ->
+  pick_next fuel st now = Ok (Some next, st') -> fired_cnt st st' now next.
+Proof.
+  induction fuel as [|fuel IH]; intros st now next st' Hinv Hih H; [discriminate H|].
+  apply pn_cases in H. destruct H as (b & bic & q & which & qic & Hq & H). cbv zeta in Hq.
+  unfold pn_alt in H.
+  destruct H as [(Hr & _)|[H|[H|[H|[H|H]]]]].
+  - discriminate Hr.
+  - eapply IH in H; [exact H|exact Hinv|exact Hih].
+  - destruct H as (_ & Hr & c' & s' & net' & -> & Tc & Ts). injection Hr as ->. left. cbn [m_c m_s m_sq].
+    split; [exact Tc|]. split; [exact Ts|]. intros X m. unfold tex, is_tem. cbn [se_ev andb ind]. lia.
+  - destruct H as (tmp & sq' & Hp & Hr & ->). injection Hr as ->. left. cbn [m_c m_s m_sq].
+    split; [reflexivity|]. split; [reflexivity|]. intros X m.
+    rewrite tex_retime. exact (qcnt_pop _ _ _ _ _ _ X m (proj1 Hinv) Hp).
+  - destruct H as (Hn & c' & s' & e & Hd & H).
+    assert (Hnodue : forall ic' e0, In e0 (qint (m_sq st) ic') -> (now < se_time e0)%Z).
+    { intros ic' e0 He0. destruct (Z.lt_ge_cases now (se_time e0)) as [Hlt|Hge]; [exact Hlt|]. exfalso.
+      pose proof (peek_queue_zero (m_sq st) (m_c st) (m_s st) (n_cagg (m_net st)) (n_sagg (m_net st))
+                  (N.min (N.min (N.min (peek_sched (s_sched (m_c st)) (s_sched (m_s st)) now)
+                                       (peek_timers (s_timers (m_c st)) (s_timers (m_s st)) now)) b)
+                         (net_peek_agg (m_net st) now)) now ic' e0 Hih He0 Hge) as Z0.
+      rewrite Hq in Z0. cbn [fst] in Z0. subst q. apply Hn. split; apply N.le_0_l. }
+    apply do_internal_timer_spec in Hd. destruct Hd as (ic & mi & Hd).
+    assert (Hx : nth_error (s_timers (side_of st ic)) mi = Some (Some (se_time e)) /\
+                 s_timers (if ic then c' else s') = upd (s_timers (side_of st ic)) mi None /\
+                 s_timers (if ic then s' else c') = s_timers (side_of st (negb ic)) /\
+                 se_ev e = TETimerEnd (N.of_nat mi) /\ se_client e = ic /\
+                 se_time e = (now + Z.of_N (peek_timers (s_timers (m_c st)) (s_timers (m_s st)) now))%Z).
+    { destruct ic; cbv beta iota zeta in Hd; destruct Hd as (Hnn & Ht & Ho & _ & _ & _ & _ & ->);
+        cbn [se_time se_ev se_client side_of negb]; rewrite Ho; auto 8. }
+    clear Hd. destruct Hx as (Hnn & Ht & Ho & Eev & Ecl & Etime).
+    assert (Hroute : SB.route e = QInternal) by (unfold SB.route; rewrite Eev; reflexivity).
+    assert (Hinv1 : SB.sq_inv (sq_push (m_sq st) e)).
+    { apply SB.sq_push_inv; [exact Hinv|rewrite Eev; discriminate]. }
+    assert (Hin1 : In e (qint (sq_push (m_sq st) e) ic)).
+    { rewrite <- Ecl. exact (fold_push_in [e] (m_sq st) e (or_introl eq_refl) Hroute). }
+    assert (Hle : (se_time e <= now + Z.of_N (peek_timers (s_timers (m_c st)) (s_timers (m_s st)) now))%Z) by lia.
+    destruct (pick_pinned _ (mksim (sq_push (m_sq st) e) c' s' (m_net st) (m_pos st)) _ _ _ ic e
+                Hinv1 (ih_push _ e Hih) Hin1 Hle H) as (Htn & Tc & Ts & _).
+    pose proof (pick_count_due _ (mksim (sq_push (m_sq st) e) c' s' (m_net st) (m_pos st)) _ _ _ ic e
+                  Hinv1 (ih_push _ e Hih) Hin1 Hle H) as Hcnt.
+    cbn [m_sq m_c m_s] in Tc, Ts, Hcnt.
+    right. exists ic, mi. rewrite Htn, <- Etime.
+    split; [exact Hnn|]. split; [destruct ic; cbn [side_of] in *; congruence|].
+    split; [destruct ic; cbn [side_of negb] in *; congruence|]. split; [exact Hnodue|].
+    intros X m. rewrite Hcnt, (qcnt_push _ _ _ _ Hroute). f_equal. unfold tex, is_tem.
+    rewrite Eev, Ecl. rewrite andb_comm. reflexivity.
+  - destruct H as (_ & c' & s' & e & Hd & H).
+    pose proof (SB.do_scheduled_action_ev _ _ _ _ _ _ Hd) as Hev.
+    assert (Hne : forall m0, se_ev e <> TETimerEnd m0).
+    { intros m0. destruct Hev as [[m1 ->]|[m1 ->]]; discriminate. }
+    assert (Hinv2 : SB.sq_inv (sq_push (m_sq st) e)).
+    { apply SB.sq_push_inv; [exact Hinv|]. destruct Hev as [[m0 ->]|[m0 ->]]; discriminate. }
+    pose proof (IH (mksim (sq_push (m_sq st) e) c' s' (m_net st) (m_pos st)) _ _ _
+                   Hinv2 (ih_push _ e Hih) H) as Hs.
+    assert (Htim : s_timers c' = s_timers (m_c st) /\ s_timers s' = s_timers (m_s st)).
+    { apply do_scheduled_action_spec in Hd. destruct Hd as (ic & mi & a & Hd). cbv zeta in Hd.
+      destruct ic; destruct Hd as (_ & _ & Ho & Ht & _); subst; auto. }
+    destruct Htim as [Tc Ts]. cbn [m_sq m_c m_s] in Hs.
+    destruct Hs as [(A & B & C)|(ic & mi & A & B & C & D & E)].
+    + left. cbn [m_c m_s m_sq] in *. split; [congruence|]. split; [congruence|].
+      intros X m. rewrite C. apply qcnt_push_other. exact Hne.
+    + right. exists ic, mi. cbn [m_sq] in *.
+      split; [destruct ic; cbn [side_of m_c m_s] in *; congruence|].
+      split; [destruct ic; cbn [side_of m_c m_s] in *; congruence|].
+      split; [destruct ic; cbn [side_of negb m_c m_s] in *; congruence|].
+      split.
+      * intros ic' e0 He0. pose proof (D ic' e0 (qint_push_keep _ e _ _ He0)). lia.
+      * intros X m. rewrite E. rewrite (qcnt_push_other _ _ _ _ Hne). reflexivity.
+Qed.
+
+(** * 10. Attribution of the reported TimerEnd events *)
+Definition is_te (r : hrec) (X : bool) (m : N) : Prop :=
+  se_ev (h_ev r) = TETimerEnd m /\ se_client (h_ev r) = X.
+(** record [j] carries an UpdateTimer for [m] on side [X] whose expiry is [x] *)
+Definition upd_at (L : list hrec) (j : nat) (X : bool) (m : N) (x : Z) : Prop :=
+  exists rj dur rp, nth_error L j = Some rj /\ se_client (h_ev rj) = X /\
+    In (TUpdateTimer m dur rp) (h_acts rj) /\ x = (se_time (h_ev rj) + Z.of_N dur)%Z.
+(** [A] attributes every TimerEnd of (X, m) to an earlier UpdateTimer with that expiry, increasingly *)
+Definition ends_ok (L : list hrec) (X : bool) (m : N) (A : nat -> nat) : Prop :=
+  (forall k rk, nth_error L k = Some rk -> is_te rk X m ->
+     (A k < k)%nat /\ upd_at L (A k) X m (se_time (h_ev rk))) /\
+  (forall k1 k2 r1 r2, (k1 < k2)%nat -> nth_error L k1 = Some r1 -> nth_error L k2 = Some r2 ->
+     is_te r1 X m -> is_te r2 X m -> (A k1 < A k2)%nat).
+Definition above (L : list hrec) (X : bool) (m : N) (A : nat -> nat) (j : nat) : Prop :=
+  forall k rk, nth_error L k = Some rk -> is_te rk X m -> (A k < j)%nat.
+
+Lemma upd_at_app : forall L L2 j X m x, upd_at L j X m x -> upd_at (L ++ L2) j X m x.
+Proof.
+  intros L L2 j X m x (rj & dur & rp & Hn & H). exists rj, dur, rp. split; [apply nth_app_l; exact Hn|exact H].
+Qed.
+
+Lemma upd_at_lt : forall L j X m x, upd_at L j X m x -> (j < length L)%nat.
+Proof. intros L j X m x (rj & _ & _ & Hn & _). eapply nth_lt; eauto. Qed.
+
+Lemma ends_ok_other : forall L r X m A, ends_ok L X m A -> ~ is_te r X m -> ends_ok (L ++ [r]) X m A.
+Proof.
+  intros L r X m A [H1 H2] Hr. split.
+  - intros k rk Hn Hte. apply nth_snoc in Hn. destruct Hn as [Hn|[_ ->]]; [|contradiction].
+    destruct (H1 k rk Hn Hte) as [A1 A2]. split; [exact A1|apply upd_at_app; exact A2].
+  - intros k1 k2 r1 r2 Hlt Hn1 Hn2 T1 T2. apply nth_snoc in Hn1. apply nth_snoc in Hn2.
+    destruct Hn1 as [Hn1|[_ ->]]; [|contradiction]. destruct Hn2 as [Hn2|[_ ->]]; [|contradiction].
+    eapply H2; eauto.
+Qed.
+
+Lemma above_other : forall L r X m A j, above L X m A j -> ~ is_te r X m -> above (L ++ [r]) X m A j.
+Proof.
+  intros L r X m A j H Hr k rk Hn Hte. apply nth_snoc in Hn. destruct Hn as [Hn|[_ ->]]; [|contradiction].
+  eapply H; eauto.
+Qed.
+
+(** reporting the queued TimerEnd whose origin is [jq] *)
+Lemma ends_ok_report : forall L r X m A jq,
+  ends_ok L X m A -> is_te r X m -> upd_at L jq X m (se_time (h_ev r)) -> above L X m A jq ->
+  let A' := fun k => if Nat.eqb k (length L) then jq else A k in
+  ends_ok (L ++ [r]) X m A' /\ above (L ++ [r]) X m A' (S jq) /\
+  (forall j, (jq < j)%nat -> above (L ++ [r]) X m A' j).
+Proof.
+  intros L r X m A jq [H1 H2] Hr Hu Hab A'.
+  assert (Hold : forall k rk, nth_error L k = Some rk -> A' k = A k).
+  { intros k rk Hn. unfold A'. apply nth_lt in Hn. destruct (Nat.eqb_spec k (length L)); [lia|reflexivity]. }
+  assert (Hnew : A' (length L) = jq) by (unfold A'; rewrite Nat.eqb_refl; reflexivity).
+  assert (Hab' : forall j, (jq < j)%nat -> above (L ++ [r]) X m A' j).
+  { intros j Hj k rk Hn Hte. apply nth_snoc in Hn. destruct Hn as [Hn|[-> ->]].
+    - rewrite (Hold _ _ Hn). pose proof (Hab k rk Hn Hte). lia.
+    - rewrite Hnew. exact Hj. }
+  split; [|split; [apply Hab'; lia|exact Hab']]. split.
+  - intros k rk Hn Hte. apply nth_snoc in Hn. destruct Hn as [Hn|[-> ->]].
+    + rewrite (Hold _ _ Hn). destruct (H1 k rk Hn Hte) as [A1 A2]. split; [exact A1|apply upd_at_app; exact A2].
+    + rewrite Hnew. split; [eapply upd_at_lt; exact Hu|apply upd_at_app; exact Hu].
+  - intros k1 k2 r1 r2 Hlt Hn1 Hn2 T1 T2. apply nth_snoc in Hn1. apply nth_snoc in Hn2.
+    destruct Hn2 as [Hn2|[-> ->]].
+    + destruct Hn1 as [Hn1|[-> _]]; [|apply nth_lt in Hn2; lia].
+      rewrite (Hold _ _ Hn1), (Hold _ _ Hn2). eapply H2; eauto.
+    + destruct Hn1 as [Hn1|[-> _]]; [|lia]. rewrite (Hold _ _ Hn1), Hnew. eapply Hab; eauto.
+Qed.
+
+(** the pending part: the running timer and the queued TimerEnd have origins beyond all attributed ones *)
+Definition pend (L : list hrec) (now : Z) (c : nat) (s : option Z) (X : bool) (m : N) (A : nat -> nat) : Prop :=
+  (c = 0%nat -> forall x, s = Some x -> exists js, upd_at L js X m x /\ above L X m A js) /\
+  (c <> 0%nat -> exists jq, upd_at L jq X m now /\ above L X m A jq /\
+                 forall x, s = Some x -> exists js, upd_at L js X m x /\ (jq < js)%nat).
+
+(** the same across [pick_next] and the event of the new record [r] (origins still taken in [L]) *)
+Definition pendm (L : list hrec) (r : hrec) (T : Z) (c : nat) (s : option Z) (X : bool) (m : N)
+           (A : nat -> nat) : Prop :=
+  (c = 0%nat -> forall x, s = Some x -> exists js, upd_at L js X m x /\ above (L ++ [r]) X m A js) /\
+  (c <> 0%nat -> exists jq, upd_at L jq X m T /\ above (L ++ [r]) X m A jq /\
+                 forall x, s = Some x -> exists js, upd_at L js X m x /\ (jq < js)%nat).
+
+Lemma at_pick : forall L r X m A now T (c0 c1 : nat) (t f : bool) (s s1 : option Z),
+  ends_ok L X m A -> pend L now c0 s X m A ->
+  (c0 <= 1)%nat -> (c1 + ind t = ind f + c0)%nat ->
+  (t = true -> is_te r X m /\ se_time (h_ev r) = T) -> (t = false -> ~ is_te r X m) ->
+  (f = false -> s1 = s) -> (f = true -> s = Some T /\ s1 = None /\ c0 = 0%nat) ->
+  (c0 <> 0%nat -> T = now) ->
+  exists A', ends_ok (L ++ [r]) X m A' /\ pendm L r T c1 s1 X m A'.
+Proof.
+  intros L r X m A now T c0 c1 t f s s1 HE [P0 P1] Hc0 Hcnt Ht Htf Hf0 Hf1 Hpin.
+  destruct t, f; cbn [ind] in Hcnt.
+  - (* fired and reported in the same call *)
+    destruct (Hf1 eq_refl) as (-> & -> & ->). assert (c1 = 0)%nat by lia. subst c1.
+    destruct (Ht eq_refl) as [Hte Htime].
+    destruct (P0 eq_refl T eq_refl) as (js & Hu & Hab).
+    rewrite <- Htime in Hu.
+    destruct (ends_ok_report L r X m A js HE Hte Hu Hab) as (E' & _ & _).
+    eexists. split; [exact E'|]. split; [intros _ x C; discriminate C|intros C; contradiction].
+  - (* the queued TimerEnd is reported *)
+    assert (c0 = 1 /\ c1 = 0)%nat as [-> ->] by lia.
+    rewrite (Hf0 eq_refl). destruct (Ht eq_refl) as [Hte Htime].
+    destruct (P1 ltac:(lia)) as (jq & Hu & Hab & Hs). rewrite <- (Hpin ltac:(lia)), <- Htime in Hu.
+    destruct (ends_ok_report L r X m A jq HE Hte Hu Hab) as (E' & _ & Hab').
+    eexists. split; [exact E'|]. split; [|intros C; contradiction].
+    intros _ x Hx. destruct (Hs x Hx) as (js & Hujs & Hlt). exists js. split; [exact Hujs|apply Hab'; exact Hlt].
+  - (* fired, another event of that instant is returned: the TimerEnd is queued *)
+    destruct (Hf1 eq_refl) as (-> & -> & ->). assert (c1 = 1)%nat by lia. subst c1.
+    pose proof (Htf eq_refl) as Hnte.
+    destruct (P0 eq_refl T eq_refl) as (js & Hu & Hab).
+    exists A. split; [apply ends_ok_other; assumption|]. split; [intros C; discriminate C|].
+    intros _. exists js. split; [exact Hu|]. split; [apply above_other; assumption|].
+    intros x C. discriminate C.
+  - (* nothing happens to this timer *)
+    assert (c1 = c0) by lia. subst c1. rewrite (Hf0 eq_refl). pose proof (Htf eq_refl) as Hnte.
+    exists A. split; [apply ends_ok_other; assumption|]. split.
+    + intros C x Hx. destruct (P0 C x Hx) as (js & Hu & Hab). exists js. split; [exact Hu|apply above_other; assumption].
+    + intros C. destruct (P1 C) as (jq & Hu & Hab & Hs). rewrite (Hpin C). exists jq.
+      split; [exact Hu|]. split; [apply above_other; assumption|exact Hs].
+Qed.
+
+Lemma at_acts : forall L r X m A T c s1 s3,
+  ends_ok (L ++ [r]) X m A -> pendm L r T c s1 X m A -> se_time (h_ev r) = T ->
+  (forall x, s3 = Some x -> s1 = Some x \/
+     (se_client (h_ev r) = X /\ exists dur rp, In (TUpdateTimer m dur rp) (h_acts r) /\ x = (T + Z.of_N dur)%Z)) ->
+  pend (L ++ [r]) T c s3 X m A.
+Proof.
+  intros L r X m A T c s1 s3 [H1 _] [P0 P1] Htime Hs3.
+  assert (Hlast : nth_error (L ++ [r]) (length L) = Some r).
+  { rewrite nth_error_app2 by lia. rewrite Nat.sub_diag. reflexivity. }
+  assert (Hnew : forall x, se_client (h_ev r) = X ->
+            (exists dur rp, In (TUpdateTimer m dur rp) (h_acts r) /\ x = (T + Z.of_N dur)%Z) ->
+            upd_at (L ++ [r]) (length L) X m x /\ above (L ++ [r]) X m A (length L)).
+  { intros x Hc (dur & rp & Hin & ->). split.
+    - exists r, dur, rp. rewrite Htime. auto.
+    - intros k rk Hn Hte. destruct (H1 k rk Hn Hte) as [Hlt _]. apply nth_lt in Hn.
+      rewrite app_length in Hn. cbn [length] in Hn. lia. }
+  split.
+  - intros C x Hx. destruct (Hs3 x Hx) as [Hold|[Hc Hu]].
+    + destruct (P0 C x Hold) as (js & Hu & Hab). exists js. split; [apply upd_at_app; exact Hu|exact Hab].
+    + exists (length L). apply Hnew; assumption.
+  - intros C. destruct (P1 C) as (jq & Hu & Hab & Hs). exists jq. split; [apply upd_at_app; exact Hu|].
+    split; [exact Hab|]. intros x Hx. destruct (Hs3 x Hx) as [Hold|[Hc Hu']].
+    + destruct (Hs x Hold) as (js & Hujs & Hlt). exists js. split; [apply upd_at_app; exact Hujs|exact Hlt].
+    + exists (length L). split; [apply (Hnew x Hc Hu')|eapply upd_at_lt; exact Hu].
+Qed.
+
+Lemma fold_push_cnt : forall l sq X m, (forall x, In x l -> forall m0, se_ev x <> TETimerEnd m0) ->
+  qcnt (fold_left sq_push l sq) X m = qcnt sq X m.
+Proof.
+  induction l as [|x l IH]; intros sq X m Hl; cbn [fold_left]; [reflexivity|].
+  rewrite IH by (intros y Hy; apply Hl; right; exact Hy).
+  apply qcnt_push_other. apply Hl. left. reflexivity.
+Qed.
+
+Lemma network_stack_cnt : forall next sq bb net nowt sq' net' act X m,
+  SB.wf_simq sq -> sim_network_stack next sq bb net nowt = Ok (sq', net', act) ->
+  qcnt sq' X m = qcnt sq X m.
+Proof.
+  intros next sq bb net nowt sq' net' act X m Hwf H. unfold sim_network_stack in H.
+  destruct (se_ev next) eqn:Eev; try (injection H as <- _ _; reflexivity).
+  - destruct (se_pad next); injection H as <- _ _; apply qcnt_push_other; intros mm; cbn [se_ev]; discriminate.
+  - injection H as <- _ _. apply qcnt_push_other; intros mm; cbn [se_ev]; discriminate.
+  - assert (Hplain : forall pd by_ rp,
+              qcnt (sq_push sq (mksev TETunnelSent (se_time next) (se_client next) pd by_ rp)) X m = qcnt sq X m).
+    { intros pd by_ rp. apply qcnt_push_other; intros mm; cbn [se_ev]; discriminate. }
+    destruct (se_replace next); [|injection H as <- _ _; apply Hplain].
+    destruct (sq_peek_blocking sq bb (se_client next)) as [[queued|] which] eqn:Epk;
+      [|injection H as <- _ _; apply Hplain].
+    destruct (Bool.eqb (se_client queued) (se_client next) && is_tunnel_sent (se_ev queued)
+              && negb (se_pad queued)); [|injection H as <- _ _; apply Hplain].
+    destruct (negb (se_bypass next)); [injection H as <- _ _; reflexivity|].
+    destruct (sq_pop_blocking sq which bb (se_client next)
+                (if se_client next then n_cagg net else n_sagg net)) as [[entry sq1]|] eqn:Epop;
+      [|discriminate].
+    injection H as <- _ _.
+    apply sq_peek_blocking_qid in Epk.
+    assert (Hp : exists w d, (w = QBlocking \/ w = QBypassable) /\ sq_pop sq w (se_client next) d = Some (entry, sq1)).
+    { unfold sq_pop_blocking in Epop. destruct bb; eauto. }
+    destruct Hp as (w & d & Hw & Hp).
+    assert (Hent : se_ev entry = TETunnelSent).
+    { pose proof (SB.sq_pop_ok _ _ _ _ _ _ Hwf Hp) as [_ Hk].
+      destruct Hw as [-> | ->]; destruct Hk as [Hk _]; exact Hk. }
+    rewrite qcnt_push_other by (intros mm; cbn [se_ev]; rewrite Hent; discriminate).
+    pose proof (qcnt_pop _ _ _ _ _ _ X m Hwf Hp) as Hc.
+    assert (Ht : tex entry X m = false).
+    { unfold tex, is_tem. rewrite Hent. reflexivity. }
+    rewrite Ht in Hc. cbn [ind] in Hc. lia.
+  - destruct (net_sample net nowt (se_client next)) as [[net1 nd] baseline].
+    destruct (negb (se_pad next)); injection H as <- _ _; apply qcnt_push_other; intros mm; cbn [se_ev]; discriminate.
+Qed.
+
+Definition AT (L : list hrec) (now : Z) (st : sim) : Prop :=
+  (forall X m, (qcnt (m_sq st) X m <= 1)%nat) /\
+  forall X m, exists A, ends_ok L X m A /\
+    pend L now (qcnt (m_sq st) X m) (slotv (s_timers (side_of st X)) m) X m A.
+
+Lemma step_AT : forall L cc sc tp fuel st now next st1 bb sq2 net2 act sd' sq3 pos3 st3,
+  QOK L now (m_sq st) -> SL L st -> AT L now st -> pick_next fuel st now = Ok (Some next, st1) ->
+  sim_network_stack next (m_sq st1) bb (m_net st1) (se_time next) = Ok (sq2, net2, act) ->
+  trigger_update (if se_client next then cc else sc) tp (side_of st1 (se_client next)) (m_pos st1)
+                 next (se_time next) sq2 (se_client next) = Ok (sd', sq3, pos3) ->
+  m_sq st3 = sq3 -> side_of st3 (se_client next) = sd' ->
+  side_of st3 (negb (se_client next)) = side_of st1 (negb (se_client next)) ->
+  AT (L ++ [mkhrec next (acts_for cc sc tp st1 next)]) (se_time next) st3.
+Proof.
+  intros L cc sc tp fuel st now next st1 bb sq2 net2 act sd' sq3 pos3 st3 HQ HS [Hc1 HA] Hp En Htu E3q E3x E3o.
+  destruct (pick_next_tinv _ _ _ _ _ _ HQ HS Hp) as (HQ1 & _ & _).
+  pose proof (pick_count _ _ _ _ _ (proj1 HQ) (proj1 (proj2 HQ)) Hp) as Hcnt.
+  destruct (trigger_update_acts _ _ _ _ _ _ _ _ _ _ _ Htu) as (fw' & acts & Et & Ea).
+  assert (Hacts : acts_for cc sc tp st1 next = acts).
+  { unfold acts_for. unfold side_of in Et. destruct (se_client next); rewrite Et; reflexivity. }
+  rewrite Hacts in *.
+  pose proof (apply_actions_slotv _ _ _ _ _ _ _ Ea) as Hslot. cbn [side_set_fw s_timers] in Hslot.
+  destruct (apply_actions_spec _ _ _ _ _ _ _ Ea) as (_ & _ & _ & _ & Esq3 & _).
+  cbn [side_set_fw s_timers] in Esq3.
+  assert (Hq3 : forall X m, qcnt (m_sq st3) X m = qcnt (m_sq st1) X m).
+  { intros X m. rewrite E3q, Esq3. rewrite fold_push_cnt.
+    - eapply network_stack_cnt; [exact (proj1 (proj1 HQ1))|exact En].
+    - intros x Hx m0. apply timer_begins_in in Hx. destruct Hx as (m1 & dur & rp & -> & _). cbn [se_ev]. discriminate. }
+  (* a queued TimerEnd pins the time *)
+  assert (Hpin : forall X m, qcnt (m_sq st) X m <> 0%nat -> se_time next = now).
+  { intros X m Hc. assert (Hq : queued_end (m_sq st) X m) by (apply qcnt_pos; lia).
+    destruct Hq as (e & He & Hev).
+    destruct (proj2 (proj2 HQ) X e He) as [_ Hte]. destruct (Hte m Hev) as [Hnow _].
+    assert (Hle : (se_time e <= now)%Z) by lia.
+    destruct (pick_pinned _ _ _ _ _ X e (proj1 HQ) (proj1 (proj2 HQ)) He Hle Hp) as (Ht & _). exact Ht. }
+  set (r := mkhrec next acts).
+  (* per timer: counts, fired flag, slot *)
+  assert (Hper : forall X m, exists f : bool,
+            (qcnt (m_sq st1) X m + ind (tex next X m) = ind f + qcnt (m_sq st) X m)%nat /\
+            (f = false -> slotv (s_timers (side_of st1 X)) m = slotv (s_timers (side_of st X)) m) /\
+            (f = true -> slotv (s_timers (side_of st X)) m = Some (se_time next) /\
+                         slotv (s_timers (side_of st1 X)) m = None /\ qcnt (m_sq st) X m = 0%nat)).
+  { intros X m. destruct Hcnt as [(Tc & Ts & C)|(ic & mi & Hn & Hu & Ho & Hnd & C)].
+    - exists false. split; [cbn [ind]; apply C|]. split; [|discriminate].
+      intros _. destruct X; cbn [side_of]; congruence.
+    - assert (Hzero : forall X0 m0, qcnt (m_sq st) X0 m0 = 0%nat).
+      { intros X0 m0. destruct (qcnt (m_sq st) X0 m0) eqn:E; [reflexivity|]. exfalso.
+        assert (Hq : queued_end (m_sq st) X0 m0) by (apply qcnt_pos; lia).
+        destruct Hq as (e & He & Hev). destruct (proj2 (proj2 HQ) X0 e He) as [_ Hte].
+        destruct (Hte m0 Hev) as [Hnow _]. pose proof (Hnd X0 e He). lia. }
+      exists (Bool.eqb ic X && N.eqb (N.of_nat mi) m). split; [apply C|].
+      assert (Hlt : (mi < length (s_timers (side_of st ic)))%nat) by (apply nth_error_Some; congruence).
+      destruct (Bool.eqb ic X) eqn:EX; cbn [andb].
+      + apply Bool.eqb_prop in EX. subst X. rewrite Hu, (slotv_upd _ _ _ _ Hlt).
+        destruct (N.eqb_spec (N.of_nat mi) m) as [<-|Hm].
+        * split; [discriminate|]. intros _. split; [apply slotv_some; rewrite Nat2N.id; exact Hn|]. auto.
+        * split; [reflexivity|discriminate].
+      + split; [|discriminate]. intros _.
+        assert (X = negb ic) by (destruct X, ic; try discriminate; reflexivity). subst X. rewrite Ho. reflexivity. }
+  split.
+  - intros X m. rewrite Hq3. destruct (Hper X m) as (f & C & _ & F1). pose proof (Hc1 X m).
+    destruct f; cbn [ind] in C; [destruct (F1 eq_refl) as (_ & _ & Z0)|]; lia.
+  - intros X m. destruct (HA X m) as (A & HE & HP). destruct (Hper X m) as (f & C & F0 & F1).
+    destruct (at_pick L r X m A now (se_time next) (qcnt (m_sq st) X m) (qcnt (m_sq st1) X m)
+                (tex next X m) f (slotv (s_timers (side_of st X)) m) (slotv (s_timers (side_of st1 X)) m)
+                HE HP (Hc1 X m) C) as (A' & HE' & HP').
+    + intros Ht. unfold tex in Ht. apply andb_prop in Ht. destruct Ht as [T1 T2].
+      apply is_tem_true in T1. apply Bool.eqb_prop in T2. split; [split; assumption|reflexivity].
+    + intros Ht [T1 T2]. unfold tex in Ht. cbn [r h_ev] in T1, T2.
+      rewrite (proj2 (is_tem_true m next) T1), T2, Bool.eqb_reflx in Ht. discriminate Ht.
+    + exact F0.
+    + exact F1.
+    + apply Hpin.
+    + exists A'. split; [exact HE'|]. rewrite Hq3.
+      eapply at_acts; [exact HE'|exact HP'|reflexivity|].
+      intros x Hx. cbn [r h_ev h_acts].
+      destruct (bool_dec X (se_client next)) as [->|Hne].
+      * rewrite E3x, Hslot in Hx. apply timer_after_some in Hx.
+        destruct Hx as [(dur & rp & Hin & ->)|Hx]; [right; split; [reflexivity|eauto]|left; exact Hx].
+      * apply neq_negb in Hne. subst X. rewrite E3o in Hx. left. exact Hx.
+Qed.
+
+Definition EndsAll (H : list hrec) : Prop := forall X m, exists A, ends_ok H X m A.
+
+Lemma loop_at : forall cc sc tp args fuel st now hist iters H,
+  GI (rev hist) now st -> AT (rev hist) now st ->
+  sim_loop_h fuel cc sc tp args st now hist iters = Ok H -> EndsAll H.
+Proof.
+  intros cc sc tp args. induction fuel as [|fuel IH]; intros st now hist iters H HGI HAT Hrun;
+    [discriminate Hrun|].
+  assert (Hnow : EndsAll (rev hist)).
+  { intros X m. destruct (proj2 HAT X m) as (A & HE & _). exists A. exact HE. }
+  cbn [sim_loop_h] in Hrun.
+  destruct (pick_next (pn_fuel st) st now) as [[nx st1]|k|] eqn:Ep; cbn [bind] in Hrun; try discriminate.
+  destruct nx as [next|]; [|injection Hrun as <-; exact Hnow].
+  destruct (se_time next <? now)%Z; [discriminate|].
+  destruct (sim_network_stack next (m_sq st1) _ (m_net st1) (se_time next)) as [[[sq2 net2] act]|k|] eqn:En;
+    cbn [bind] in Hrun; try discriminate.
+  set (r := mkhrec next (acts_for cc sc tp st1 next)) in *.
+  assert (Hstep : exists sd' sq3 pos3 st3,
+            trigger_update (if se_client next then cc else sc) tp (side_of st1 (se_client next)) (m_pos st1)
+                           next (se_time next) sq2 (se_client next) = Ok (sd', sq3, pos3) /\
+            m_sq st3 = sq3 /\ side_of st3 (se_client next) = sd' /\
+            side_of st3 (negb (se_client next)) = side_of st1 (negb (se_client next)) /\
+            (let hist' := r :: hist in
+             (if (0 <? a_max_trace args) && (a_max_trace args <=? N.of_nat (length hist')) then Ok (rev hist')
+              else
+                let iters' := iters + 1 in
+                if (0 <? a_max_iter args) && (a_max_iter args <=? iters') then Ok (rev hist')
+                else if negb (a_continue args) && sq_no_normal sq3 then Ok (rev hist')
+                else sim_loop_h fuel cc sc tp args st3 (se_time next) hist' iters') = Ok H)).
+  { destruct (se_client next) eqn:Ec.
+    - destruct (trigger_update cc tp (m_c st1) (m_pos st1) next (se_time next) sq2 true)
+        as [[[c' sq'] p']|k|] eqn:Et; cbn [bind] in Hrun; try discriminate.
+      exists c', sq', p', (mksim sq' c' (m_s st1) net2 p'). cbn [side_of negb m_sq m_c m_s].
+      split; [exact Et|]. split; [reflexivity|]. split; [reflexivity|]. split; [reflexivity|exact Hrun].
+    - destruct (trigger_update sc tp (m_s st1) (m_pos st1) next (se_time next) sq2 false)
+        as [[[s' sq'] p']|k|] eqn:Et; cbn [bind] in Hrun; try discriminate.
+      exists s', sq', p', (mksim sq' (m_c st1) s' net2 p'). cbn [side_of negb m_sq m_c m_s].
+      split; [exact Et|]. split; [reflexivity|]. split; [reflexivity|]. split; [reflexivity|exact Hrun]. }
+  clear Hrun. destruct Hstep as (sd' & sq3 & pos3 & st3 & Htu & E3q & E3x & E3o & Hrun). cbv zeta in Hrun.
+  pose proof (step_GI _ cc sc tp _ _ _ _ _ _ _ _ _ _ _ _ st3 HGI Ep En Htu E3q E3x E3o) as HGI3.
+  pose proof (step_AT _ cc sc tp _ _ _ _ _ _ _ _ _ _ _ _ st3 (gi_q _ _ _ HGI) (gi_sl _ _ _ HGI) HAT
+                Ep En Htu E3q E3x E3o) as HAT3.
+  change (rev hist ++ [mkhrec next (acts_for cc sc tp st1 next)]) with (rev (r :: hist)) in HGI3, HAT3.
+  assert (Hfin : EndsAll (rev (r :: hist))).
+  { intros X m. destruct (proj2 HAT3 X m) as (A & HE & _). exists A. exact HE. }
+  destruct (_ && _) in Hrun; [injection Hrun as <-; exact Hfin|].
+  destruct (_ && _) in Hrun; [injection Hrun as <-; exact Hfin|].
+  destruct (_ && _) in Hrun; [injection Hrun as <-; exact Hfin|].
+  eapply IH; [exact HGI3|exact HAT3|exact Hrun].
+Qed.
+
+Lemma init_AT : forall cc sc tp sq delay pps st0 t0,
+  sim_init cc sc tp sq delay pps st0 t0 -> start_ok sq -> AT [] t0 st0.
+Proof.
+  intros cc sc tp sq delay pps st0 t0 (cfw & sfw & net & _ & _ & _ & _ & ->) [_ Hn].
+  assert (Hz : forall X m, qcnt sq X m = 0%nat).
+  { intros X m. destruct (qcnt sq X m) eqn:E; [reflexivity|]. exfalso.
+    assert (Hq : queued_end sq X m) by (apply qcnt_pos; lia). destruct Hq as (e & He & Hev).
+    destruct (Hn X e He m) as [_ C]. exact (C Hev). }
+  cbn [m_sq]. split; [intros X m; rewrite Hz; lia|].
+  intros X m. exists (fun _ => 0%nat). split.
+  - split; [intros k rk Hk; destruct k; discriminate Hk|intros k1 k2 r1 r2 _ Hk; destruct k1; discriminate Hk].
+  - rewrite Hz. split; [|intros C; contradiction]. intros _ x Hx. exfalso.
+    apply slotv_some in Hx. apply nth_error_In in Hx.
+    destruct X; cbn [side_of m_c m_s new_side s_timers] in Hx; apply in_map_iff in Hx;
+      destruct Hx as (y & Hy & _); discriminate Hy.
+Qed.
+
+Theorem run_ends : forall fuel cc sc tp args st0 t0 H sq delay pps,
+  sim_init cc sc tp sq delay pps st0 t0 -> SB.sq_inv sq -> start_ok sq ->
+  sim_loop_h fuel cc sc tp args st0 t0 [] 0 = Ok H -> EndsAll H.
+Proof.
+  intros fuel cc sc tp args st0 t0 H sq delay pps Hi Hinv Hs Hrun.
+  eapply loop_at; [| |exact Hrun]; cbn [rev].
+  - eapply init_GI; eauto.
+  - eapply init_AT; eauto.
+Qed.
+
+(** * 11. C18, the converse direction, for ALL runs on parsed traces *)
+(** (a) whenever an UpdateTimer sets or changes the timer, judged by the attribution-aware replay
+        [treplay'], a TimerBegin for that machine is reported on that side at that instant before
+        simulated time moves on. One corner is excluded: a zero-duration, non-replacing update at an instant
+        t at which the replay has no timer running AND a TimerEnd of that machine and side was already
+        reported at t (the replay cannot tell from the history whether that TimerEnd ended a zero-duration
+        re-arm of instant t or the timer before it; in the second case the re-arm is still running and the
+        update changes nothing). We do not know a run in which the exclusion matters.
+    (a+) the same with the timer judged after the event of record j itself ([after_event']).
+    (b) if the replay says the timer of m runs with expiry e, then before simulated time moves past e a
+        TimerEnd for m is reported exactly at e, unless a timer action for m was returned first, at e or
+        earlier. (As in SimTimerLive.v, now without any hypothesis.)
+    (c) attribution: for every machine and side there is a map A from the TimerEnd records to EARLIER
+        records carrying an UpdateTimer for that machine on that side whose expiry (instant + duration) is
+        the instant of the TimerEnd, and A is strictly increasing (so no UpdateTimer accounts for two
+        TimerEnd: "at most once"). *)
+Definition live_gen (H : list hrec) : Prop :=
+  (forall j rj m dur rp k' rk',
+     nth_error H j = Some rj -> In (TUpdateTimer m dur rp) (h_acts rj) ->
+     let X := se_client (h_ev rj) in let t := se_time (h_ev rj) in
+     (rp = true \/
+      (treplay' X m H j = None /\ (0 < dur \/ ~ stale_before H j X m t)) \/
+      (exists u, treplay' X m H j = Some u /\ (u < t + Z.of_N dur)%Z)) ->
+     (j < k')%nat -> nth_error H k' = Some rk' -> (t < se_time (h_ev rk'))%Z ->
+     exists k rk, (j < k < k')%nat /\ nth_error H k = Some rk /\ se_ev (h_ev rk) = TETimerBegin m /\
+                  se_client (h_ev rk) = X /\ se_time (h_ev rk) = t) /\
+  (forall j rj m dur rp k' rk',
+     nth_error H j = Some rj -> In (TUpdateTimer m dur rp) (h_acts rj) ->
+     let X := se_client (h_ev rj) in let t := se_time (h_ev rj) in
+     let cur := after_event' (se_ev (h_ev rj)) m t (treplay' X m H j) in
+     (rp = true \/
+      (cur = None /\ (0 < dur \/ ~ stale_before H (S j) X m t)) \/
+      (exists u, cur = Some u /\ (u < t + Z.of_N dur)%Z)) ->
+     (j < k')%nat -> nth_error H k' = Some rk' -> (t < se_time (h_ev rk'))%Z ->
+     exists k rk, (j < k < k')%nat /\ nth_error H k = Some rk /\ se_ev (h_ev rk) = TETimerBegin m /\
+                  se_client (h_ev rk) = X /\ se_time (h_ev rk) = t) /\
+  (forall j m e k' rk' X,
+     (j <= length H)%nat -> treplay' X m H j = Some e ->
+     (j <= k')%nat -> nth_error H k' = Some rk' -> (e < se_time (h_ev rk'))%Z ->
+     (exists k rk, (j <= k < k')%nat /\ nth_error H k = Some rk /\ se_ev (h_ev rk) = TETimerEnd m /\
+                   se_client (h_ev rk) = X /\ se_time (h_ev rk) = e) \/
+     (exists j' rj' a', (j <= j' < k')%nat /\ nth_error H j' = Some rj' /\ se_client (h_ev rj') = X /\
+                   In a' (h_acts rj') /\ is_timer_for m a' = true /\ (se_time (h_ev rj') <= e)%Z)) /\
+  (forall X m, exists A : nat -> nat,
+     (forall k rk, nth_error H k = Some rk -> se_ev (h_ev rk) = TETimerEnd m -> se_client (h_ev rk) = X ->
+        (A k < k)%nat /\
+        exists rj dur rp, nth_error H (A k) = Some rj /\ se_client (h_ev rj) = X /\
+          In (TUpdateTimer m dur rp) (h_acts rj) /\
+          se_time (h_ev rk) = (se_time (h_ev rj) + Z.of_N dur)%Z) /\
+     (forall k1 k2 r1 r2, (k1 < k2)%nat -> nth_error H k1 = Some r1 -> nth_error H k2 = Some r2 ->
+        se_ev (h_ev r1) = TETimerEnd m -> se_client (h_ev r1) = X ->
+        se_ev (h_ev r2) = TETimerEnd m -> se_client (h_ev r2) = X -> (A k1 < A k2)%nat)).
+
+Lemma live_gen_of : forall H, GoodA' H -> RecB' H -> EndsAll H -> live_gen H.
+Proof.
+  intros H HG HR HE. split; [|split; [|split]].
+  - intros j rj m dur rp k' rk' Hn Hin X t Hc Hlt Hk' Ht.
+    assert (Ho : owed' H j X m t).
+    { exists rj, dur, rp. split; [exact Hn|]. split; [reflexivity|]. split; [reflexivity|].
+      split; [exact Hin|]. left. exact Hc. }
+    destruct (HG _ _ _ _ _ _ Ho Hlt Hk' Ht) as (k & Hk & rk & Hrest). exists k, rk. auto.
+  - intros j rj m dur rp k' rk' Hn Hin X t cur Hc Hlt Hk' Ht.
+    assert (Ho : owed' H j X m t).
+    { exists rj, dur, rp. split; [exact Hn|]. split; [reflexivity|]. split; [reflexivity|].
+      split; [exact Hin|]. right. exact Hc. }
+    destruct (HG _ _ _ _ _ _ Ho Hlt Hk' Ht) as (k & Hk & rk & Hrest). exists k, rk. auto.
+  - apply live_end'. exact HR.
+  - intros X m. destruct (HE X m) as (A & H1 & H2). exists A. split.
+    + intros k rk Hn Hev Hcl. destruct (H1 k rk Hn (conj Hev Hcl)) as [Hlt (rj & dur & rp & A1 & A2 & A3 & A4)].
+      split; [exact Hlt|]. exists rj, dur, rp. auto.
+    + intros k1 k2 r1 r2 Hlt Hn1 Hn2 E1 C1 E2 C2. exact (H2 k1 k2 r1 r2 Hlt Hn1 Hn2 (conj E1 C1) (conj E2 C2)).
+Qed.
+
+Theorem timers_live_gen : forall fuel cc sc tp tr delay pps args out,
+  full_args args ->
+  sim_advanced fuel cc sc tp (parse_trace tr delay) delay pps args = Ok out ->
+  exists H : list hrec, out = map h_ev H /\ live_gen H.
+Proof.
+  intros fuel cc sc tp tr delay pps args out Hf Hrun.
+  destruct (sim_advanced_history _ _ _ _ _ _ _ _ _ Hf Hrun) as (st0 & t0 & H & Hi & Hl & ->).
+  exists H. split; [reflexivity|].
+  destruct (run_gen fuel cc sc tp args st0 t0 H _ delay pps Hi (SB.parse_trace_inv tr delay)
+              (parse_trace_start tr delay) Hl) as [HG HR].
+  pose proof (run_ends fuel cc sc tp args st0 t0 H _ delay pps Hi (SB.parse_trace_inv tr delay)
+                (parse_trace_start tr delay) Hl) as HE.
+  apply live_gen_of; assumption.
+Qed.
+
+(** (c) for two TimerEnd records: they are the ends of two different earlier updates, in order *)
+Corollary live_gen_once : forall H, live_gen H ->
+  forall X m k1 k2 r1 r2, (k1 < k2)%nat -> nth_error H k1 = Some r1 -> nth_error H k2 = Some r2 ->
+    se_ev (h_ev r1) = TETimerEnd m -> se_client (h_ev r1) = X ->
+    se_ev (h_ev r2) = TETimerEnd m -> se_client (h_ev r2) = X ->
+    exists j1 j2 rj1 rj2 d1 d2 p1 p2, (j1 < j2)%nat /\ (j1 < k1)%nat /\ (j2 < k2)%nat /\
+      nth_error H j1 = Some rj1 /\ nth_error H j2 = Some rj2 /\
+      se_client (h_ev rj1) = X /\ se_client (h_ev rj2) = X /\
+      In (TUpdateTimer m d1 p1) (h_acts rj1) /\ In (TUpdateTimer m d2 p2) (h_acts rj2) /\
+      se_time (h_ev r1) = (se_time (h_ev rj1) + Z.of_N d1)%Z /\
+      se_time (h_ev r2) = (se_time (h_ev rj2) + Z.of_N d2)%Z.
+Proof.
+  intros H (_ & _ & _ & HC) X m k1 k2 r1 r2 Hlt H1 H2 E1 C1 E2 C2.
+  destruct (HC X m) as (A & HA & HM).
+  destruct (HA k1 r1 H1 E1 C1) as [L1 (rj1 & d1 & p1 & N1 & X1 & I1 & T1)].
+  destruct (HA k2 r2 H2 E2 C2) as [L2 (rj2 & d2 & p2 & N2 & X2 & I2 & T2)].
+  exists (A k1), (A k2), rj1, rj2, d1, d2, p1, p2.
+  split; [exact (HM k1 k2 r1 r2 Hlt H1 H2 E1 C1 E2 C2)|]. auto 12.
+Qed.
+
+(** * 12. Non-vacuity: the general statements hold on the counterexample runs of SimTimerLive.v *)
+Example lvA_live_gen : live_gen lvA_H /\ live_gen lvC_H.
+Proof.
+  split.
+  - destruct lvA_run as (_ & _ & st0 & t0 & Hi & Hl).
+    destruct (run_gen _ _ _ _ _ _ _ _ _ _ _ Hi (SB.parse_trace_inv lv_tr 1000) (parse_trace_start lv_tr 1000) Hl)
+      as [HG HR].
+    pose proof (run_ends _ _ _ _ _ _ _ _ _ _ _ Hi (SB.parse_trace_inv lv_tr 1000) (parse_trace_start lv_tr 1000) Hl).
+    apply live_gen_of; assumption.
+  - destruct lvC_run as (_ & _ & st0 & t0 & Hi & Hl).
+    destruct (run_gen _ _ _ _ _ _ _ _ _ _ _ Hi (SB.parse_trace_inv lv_tr 1000) (parse_trace_start lv_tr 1000) Hl)
+      as [HG HR].
+    pose proof (run_ends _ _ _ _ _ _ _ _ _ _ _ Hi (SB.parse_trace_inv lv_tr 1000) (parse_trace_start lv_tr 1000) Hl).
+    apply live_gen_of; assumption.
+Qed.
+
+(** on run A the new replay follows the model where the old one went wrong: record 10 (the held bypass
+    TunnelSent at 5.01 ms) carries UpdateTimer 3 (4 ms): the replay is Some 5.01 ms before and Some 9.01 ms
+    after; the stale TimerEnd of record 12 (5.01 ms) leaves it at 9.01 ms; the UpdateTimer 3 (1 ms, no
+    replace) of record 13 at 6.01 ms does not reach beyond 9.01 ms, so nothing is owed; record 14 is the
+    TimerEnd at 9.01 ms, exactly the replayed expiry. The two TimerEnd (records 12 and 14) are attributed
+    to the updates of records 6 (10 us + 5 ms) and 10 (5.01 ms + 4 ms). *)
+Example lvA_gen_facts :
+  treplay' true 3 lvA_H 10 = Some 5010000%Z /\ treplay' true 3 lvA_H 11 = Some 9010000%Z /\
+  treplay' true 3 lvA_H 12 = Some 9010000%Z /\ treplay' true 3 lvA_H 13 = Some 9010000%Z /\
+  treplay' true 3 lvA_H 14 = Some 9010000%Z /\ treplay' true 3 lvA_H 15 = None /\
+  (exists r6 r10 r12 r14,
+     nth_error lvA_H 6 = Some r6 /\ In (TUpdateTimer 3 5000000 false) (h_acts r6) /\ se_time (h_ev r6) = 10000%Z /\
+     nth_error lvA_H 10 = Some r10 /\ In (TUpdateTimer 3 4000000 false) (h_acts r10) /\ se_time (h_ev r10) = 5010000%Z /\
+     nth_error lvA_H 12 = Some r12 /\ h_ev r12 = mksev (TETimerEnd 3) 5010000 true false false false /\
+     nth_error lvA_H 14 = Some r14 /\ h_ev r14 = mksev (TETimerEnd 3) 9010000 true false false false).
+Proof.
+  repeat (split; [vm_compute; reflexivity|]).
+  eexists _, _, _, _. repeat (split; [first [reflexivity | vm_compute; auto]|]). reflexivity.
+Qed.
+
+Print Assumptions timers_live_gen.
